@@ -1,14 +1,20 @@
 /-
-  Send-side invariants (C08, send half of C06/C09).
-  Part 1: SMap facts.  Part 2: SendChannelReliable (`SendRel`).  Part 3: RenetClient (`Conn`).
+  Send-side invariants of the renet model (property C08, send half of C06 / C09).
+
+  Part 1: association-list facts.  Part 2: SendChannelReliable (`SendRel`): `SendRel.Inv`, `InfoOK`, `Step`,
+  send_message / get_packets_to_send / process_*_ack.  Part 3: RenetClient (`Conn`): `Conn.SendInv`,
+  send_message / update / get_packets_to_send / process_packet.
+
+  Helper lemmas live in namespace `RenetVerif.SI`; predicates used with field notation on model types
+  (`s.Inv`, `c.SendInv`, `u.OK`, …) are declared under the model type's own namespace.
 -/
 import RenetVerif.Renet.Conn
 import RenetVerif.Lemmas.Acks
 namespace RenetVerif
-open C
+namespace SI
+open C RenetVerif.SMap
 
 /-! ## Part 1 : association lists -/
-namespace SMap
 variable {α : Type}
 
 /-- strictly increasing keys -/
@@ -71,10 +77,10 @@ theorem not_contains_iff {m : SMap α} {k : Nat} : ¬ contains m k = true ↔ fi
 /-! #### insert -/
 theorem find?_insert : ∀ (m : SMap α) (k : Nat) (v : α) (k' : Nat),
     find? (insert m k v) k' = if k = k' then some v else find? m k'
-  | [], k, v, k' => by simp [insert, find?_cons]
+  | [], k, v, k' => by simp [SMap.insert, find?_cons]
   | (k0, v0) :: r, k, v, k' => by
     have ih := find?_insert r k v k'
-    simp only [insert]
+    simp only [SMap.insert]
     by_cases c1 : k < k0
     · rw [if_pos c1, find?_cons]
     · rw [if_neg c1]
@@ -89,9 +95,9 @@ theorem find?_insert_ne (m : SMap α) {k k' : Nat} (v : α) (h : k ≠ k') : fin
   rw [find?_insert, if_neg h]
 
 theorem mem_insert : ∀ {m : SMap α} {k : Nat} {v : α} {x : Nat × α}, x ∈ insert m k v → x = (k, v) ∨ x ∈ m
-  | [], k, v, x, h => by simp [insert] at h; exact Or.inl h
+  | [], k, v, x, h => by simp [SMap.insert] at h; exact Or.inl h
   | (k0, v0) :: r, k, v, x, h => by
-    simp only [insert] at h
+    simp only [SMap.insert] at h
     by_cases c1 : k < k0
     · rw [if_pos c1] at h
       simp only [List.mem_cons] at h ⊢
@@ -112,9 +118,9 @@ theorem mem_insert : ∀ {m : SMap α} {k : Nat} {v : α} {x : Nat × α}, x ∈
           · exact Or.inr (Or.inr h)
 
 theorem sorted_insert : ∀ {m : SMap α} (k : Nat) (v : α), Sorted m → Sorted (insert m k v)
-  | [], k, v, _ => by simp [insert, Sorted]
+  | [], k, v, _ => by simp [SMap.insert, Sorted]
   | (k0, v0) :: r, k, v, hs => by
-    simp only [insert]
+    simp only [SMap.insert]
     have hs' := sorted_cons.mp hs
     by_cases c1 : k < k0
     · rw [if_pos c1, sorted_cons]
@@ -140,7 +146,7 @@ theorem insert_above : ∀ {m : SMap α} {k : Nat} (v : α), (∀ x ∈ m, x.1 <
   | (k0, v0) :: r, k, v, h => by
     have h0 := h (k0, v0) (by simp)
     simp only at h0
-    simp only [insert]
+    simp only [SMap.insert]
     rw [if_neg (by omega), if_neg (by omega), insert_above v (fun x hx => h x (List.mem_cons_of_mem _ hx))]
     rfl
 
@@ -148,7 +154,7 @@ theorem insert_above : ∀ {m : SMap α} {k : Nat} (v : α), (∀ x ∈ m, x.1 <
 theorem mem_erase : ∀ {m : SMap α} {k : Nat} {x : Nat × α}, x ∈ erase m k → x ∈ m
   | [], _, _, h => by cases h
   | (k0, v0) :: r, k, x, h => by
-    simp only [erase] at h
+    simp only [SMap.erase] at h
     by_cases c : k0 = k
     · rw [if_pos c] at h; exact List.mem_cons_of_mem _ h
     · rw [if_neg c] at h
@@ -160,7 +166,7 @@ theorem mem_erase : ∀ {m : SMap α} {k : Nat} {x : Nat × α}, x ∈ erase m k
 theorem sorted_erase : ∀ {m : SMap α} (k : Nat), Sorted m → Sorted (erase m k)
   | [], _, _ => sorted_nil
   | (k0, v0) :: r, k, hs => by
-    simp only [erase]
+    simp only [SMap.erase]
     have hs' := sorted_cons.mp hs
     by_cases c : k0 = k
     · rw [if_pos c]; exact hs'.2
@@ -170,7 +176,7 @@ theorem sorted_erase : ∀ {m : SMap α} (k : Nat), Sorted m → Sorted (erase m
 theorem find?_erase_ne : ∀ (m : SMap α) {k k' : Nat}, k ≠ k' → find? (erase m k) k' = find? m k'
   | [], _, _, _ => rfl
   | (k0, v0) :: r, k, k', h => by
-    simp only [erase]
+    simp only [SMap.erase]
     by_cases c : k0 = k
     · rw [if_pos c, find?_cons, if_neg (by omega)]
     · rw [if_neg c, find?_cons, find?_cons, find?_erase_ne r h]
@@ -178,7 +184,7 @@ theorem find?_erase_ne : ∀ (m : SMap α) {k k' : Nat}, k ≠ k' → find? (era
 theorem find?_erase_self : ∀ {m : SMap α} (k : Nat), Sorted m → find? (erase m k) k = none
   | [], _, _ => rfl
   | (k0, v0) :: r, k, hs => by
-    simp only [erase]
+    simp only [SMap.erase]
     have hs' := sorted_cons.mp hs
     by_cases c : k0 = k
     · rw [if_pos c]; subst c; exact find?_none_of_lt hs'.1
@@ -198,5 +204,2179 @@ theorem find?_erase_some {m : SMap α} (hs : Sorted m) {k k' : Nat} {v : α}
   · rw [if_pos c] at h; cases h
   · rw [if_neg c] at h; exact ⟨c, h⟩
 
-end SMap
+
+
+/-! ## Part 2 : SendChannelReliable -/
+
+/-- total length of the stored messages -/
+def msum : SMap Unacked → Nat
+  | [] => 0
+  | (_, u) :: r => u.msg.length + msum r
+
+@[simp] theorem msum_nil : msum [] = 0 := rfl
+@[simp] theorem msum_cons (k : Nat) (u : Unacked) (r : SMap Unacked) : msum ((k, u) :: r) = u.msg.length + msum r := rfl
+
+theorem msum_append : ∀ (a b : SMap Unacked), msum (a ++ b) = msum a + msum b
+  | [], b => by simp
+  | (k, u) :: a, b => by simp only [List.cons_append, msum_cons, msum_append a b]; omega
+
+theorem msum_erase : ∀ {m : SMap Unacked} {k : Nat} {u : Unacked}, find? m k = some u →
+    msum (erase m k) + u.msg.length = msum m
+  | [], _, _, h => by simp at h
+  | (k0, u0) :: r, k, u, h => by
+    rw [find?_cons] at h
+    simp only [SMap.erase]
+    by_cases c : k0 = k
+    · rw [if_pos c] at h ⊢; cases h; simp only [msum_cons]; omega
+    · rw [if_neg c] at h ⊢
+      have := msum_erase h
+      simp only [msum_cons]; omega
+
+theorem msum_insert_replace : ∀ {m : SMap Unacked} {k : Nat} {u : Unacked} (v : Unacked), Sorted m → find? m k = some u →
+    msum (insert m k v) + u.msg.length = msum m + v.msg.length
+  | [], _, _, _, _, h => by simp at h
+  | (k0, u0) :: r, k, u, v, hs, h => by
+    rw [find?_cons] at h
+    have hs' := sorted_cons.mp hs
+    simp only [SMap.insert]
+    by_cases c : k0 = k
+    · rw [if_pos c] at h; cases h
+      rw [if_neg (by omega), if_pos c.symm]
+      simp only [msum_cons]; omega
+    · rw [if_neg c] at h
+      have hm := hs'.1 _ (find?_some_mem h)
+      simp only at hm
+      rw [if_neg (by omega), if_neg (by omega)]
+      have := msum_insert_replace v hs'.2 h
+      simp only [msum_cons]; omega
+
+theorem msum_ge {m : SMap Unacked} {k : Nat} {u : Unacked} (h : find? m k = some u) : u.msg.length ≤ msum m := by
+  have := msum_erase h; omega
+
+/-! ### per-entry well-formedness -/
+def _root_.RenetVerif.Unacked.OK : Unacked → Prop
+  | .small m _ => m.length ≤ SLICE_SIZE
+  | .sliced m n numAcked _ acked lastSent =>
+    SLICE_SIZE < m.length ∧ n = divCeil m.length SLICE_SIZE ∧ acked.length = n ∧ lastSent.length = n ∧
+    numAcked = acked.count true ∧ numAcked < n
+
+theorem _root_.RenetVerif.Unacked.OK.two_le {m : Bytes} {n k nx : Nat} {a : List Bool} {ls : List (Option Nat)}
+    (h : (Unacked.sliced m n k nx a ls).OK) : 2 ≤ n := by
+  obtain ⟨h1, h2, -⟩ := h
+  simp only [divCeil, SLICE_SIZE] at h1 h2
+  omega
+
+def _root_.RenetVerif.Unacked.IsSmall : Unacked → Prop
+  | .small .. => True
+  | .sliced .. => False
+
+def _root_.RenetVerif.Unacked.SliceIdx (idx : Nat) : Unacked → Prop
+  | .small .. => False
+  | .sliced _ n .. => idx < n
+
+/-- same kind, same payload, same slice count -/
+def _root_.RenetVerif.Unacked.Kin : Unacked → Unacked → Prop
+  | .small m _, .small m' _ => m = m'
+  | .sliced m n _ _ _ _, .sliced m' n' _ _ _ _ => m = m' ∧ n = n'
+  | _, _ => False
+
+theorem _root_.RenetVerif.Unacked.Kin.refl : ∀ (u : Unacked), u.Kin u
+  | .small .. => rfl
+  | .sliced .. => ⟨rfl, rfl⟩
+
+theorem _root_.RenetVerif.Unacked.Kin.trans : ∀ {a b c : Unacked}, a.Kin b → b.Kin c → a.Kin c
+  | .small .., .small .., .small .., h1, h2 => Eq.trans h1 h2
+  | .sliced .., .sliced .., .sliced .., h1, h2 => ⟨h1.1.trans h2.1, h1.2.trans h2.2⟩
+  | .small .., .sliced .., _, h1, _ => h1.elim
+  | .sliced .., .small .., _, h1, _ => h1.elim
+  | .small .., .small .., .sliced .., _, h2 => h2.elim
+  | .sliced .., .sliced .., .small .., _, h2 => h2.elim
+
+theorem _root_.RenetVerif.Unacked.Kin.isSmall : ∀ {a b : Unacked}, a.Kin b → a.IsSmall → b.IsSmall
+  | .small .., .small .., _, _ => trivial
+  | .small .., .sliced .., h, _ => h.elim
+  | .sliced .., _, _, h => h.elim
+
+theorem _root_.RenetVerif.Unacked.Kin.sliceIdx {idx : Nat} : ∀ {a b : Unacked}, a.Kin b → a.SliceIdx idx → b.SliceIdx idx
+  | .sliced .., .sliced .., h, hi => by simp only [Unacked.SliceIdx] at hi ⊢; have := h.2; omega
+  | .sliced .., .small .., h, _ => h.elim
+  | .small .., _, _, h => h.elim
+
+theorem _root_.RenetVerif.Unacked.Kin.msg : ∀ {a b : Unacked}, a.Kin b → a.msg = b.msg
+  | .small .., .small .., h => h
+  | .sliced .., .sliced .., h => h.1
+  | .small .., .sliced .., h => h.elim
+  | .sliced .., .small .., h => h.elim
+
+/-! ### the channel invariant -/
+structure _root_.RenetVerif.SendRel.Inv (s : SendRel) : Prop where
+  sorted : Sorted s.unacked
+  keys : ∀ x ∈ s.unacked, x.1 < s.nextId
+  entries : ∀ x ∈ s.unacked, x.2.OK
+  mem : s.mem = msum s.unacked
+  bound : s.mem ≤ s.maxMem
+
+theorem _root_.RenetVerif.SendRel.Inv.find_lt {s : SendRel} (h : s.Inv) {id : Nat} {u : Unacked} (hf : find? s.unacked id = some u) :
+    id < s.nextId := h.keys _ (find?_some_mem hf)
+
+theorem _root_.RenetVerif.SendRel.Inv.find_ok {s : SendRel} (h : s.Inv) {id : Nat} {u : Unacked} (hf : find? s.unacked id = some u) :
+    u.OK := h.entries _ (find?_some_mem hf)
+
+theorem _root_.RenetVerif.SendRel.Inv.find_nextId {s : SendRel} (h : s.Inv) : find? s.unacked s.nextId = none := by
+  apply find?_none_of_forall_ne
+  intro x hx; have := h.keys x hx; omega
+
+/-- available memory is exactly the budget minus the bytes of the messages still stored -/
+theorem _root_.RenetVerif.SendRel.Inv.available_eq {s : SendRel} (h : s.Inv) : s.available = s.maxMem - msum s.unacked := by
+  unfold SendRel.available; rw [h.mem]
+
+theorem SendRel.new_inv (ch resend maxMem : Nat) : (SendRel.new ch resend maxMem).Inv :=
+  ⟨sorted_nil, fun _ h => (by cases h), fun _ h => (by cases h), rfl, Nat.zero_le _⟩
+
+/-- what a recorded packet may say about a channel -/
+def _root_.RenetVerif.SendRel.InfoOK (s : SendRel) : SentInfo → Prop
+  | .relMsgs _ ids => ∀ id ∈ ids, id < s.nextId ∧ ∀ u, find? s.unacked id = some u → u.IsSmall
+  | .relSlice _ id idx => id < s.nextId ∧ ∀ u, find? s.unacked id = some u → u.SliceIdx idx
+  | _ => True
+
+/-- one or more channel operations later: ids below the old `nextId` are gone or bound to an entry
+    of the same kind/payload/slice count; nothing else about the channel identity changed -/
+def _root_.RenetVerif.SendRel.Step (s s' : SendRel) : Prop :=
+  s'.ch = s.ch ∧ s'.maxMem = s.maxMem ∧ s.nextId ≤ s'.nextId ∧
+  ∀ id u', id < s.nextId → find? s'.unacked id = some u' → ∃ u, find? s.unacked id = some u ∧ u.Kin u'
+
+theorem _root_.RenetVerif.SendRel.Step.refl (s : SendRel) : s.Step s :=
+  ⟨rfl, rfl, Nat.le_refl _, fun _ u' _ h => ⟨u', h, Unacked.Kin.refl _⟩⟩
+
+theorem _root_.RenetVerif.SendRel.Step.trans {a b c : SendRel} (h1 : a.Step b) (h2 : b.Step c) : a.Step c := by
+  obtain ⟨a1, a2, a3, a4⟩ := h1
+  obtain ⟨b1, b2, b3, b4⟩ := h2
+  refine ⟨b1.trans a1, b2.trans a2, Nat.le_trans a3 b3, ?_⟩
+  intro id u'' hid hf
+  obtain ⟨u', hf', k'⟩ := b4 id u'' (by omega) hf
+  obtain ⟨u, hf0, k0⟩ := a4 id u' hid hf'
+  exact ⟨u, hf0, k0.trans k'⟩
+
+theorem _root_.RenetVerif.SendRel.InfoOK.step {s s' : SendRel} (h : s.Step s') : ∀ {i : SentInfo}, s.InfoOK i → s'.InfoOK i
+  | .relMsgs _ ids, hi => by
+    intro id hid
+    obtain ⟨h1, h2⟩ := hi id hid
+    refine ⟨Nat.lt_of_lt_of_le h1 h.2.2.1, ?_⟩
+    intro u' hf
+    obtain ⟨u, hf0, k⟩ := h.2.2.2 id u' h1 hf
+    exact k.isSmall (h2 u hf0)
+  | .relSlice _ id idx, hi => by
+    obtain ⟨h1, h2⟩ := hi
+    refine ⟨Nat.lt_of_lt_of_le h1 h.2.2.1, ?_⟩
+    intro u' hf
+    obtain ⟨u, hf0, k⟩ := h.2.2.2 id u' h1 hf
+    exact k.sliceIdx (h2 u hf0)
+  | .none, _ => trivial
+  | .ack _, _ => trivial
+
+/-! ### send_message -/
+theorem newSliced_ok (m : Bytes) (h : SLICE_SIZE < m.length) : (Unacked.newSliced m).OK := by
+  unfold Unacked.newSliced
+  refine ⟨h, rfl, by simp, by simp, by simp [List.count_replicate], ?_⟩
+  simp only [divCeil, SLICE_SIZE] at h ⊢; omega
+
+theorem SendRel.sendMessage_spec {s s' : SendRel} {m : Bytes} (h : s.Inv) (hs : s.sendMessage m = .ok s') :
+    s'.Inv ∧ s.Step s' ∧ s'.mem = s.mem + m.length ∧ s'.nextId = s.nextId + 1 ∧
+    (∃ u, u.msg = m ∧ find? s'.unacked s.nextId = some u) ∧
+    (∀ id, id ≠ s.nextId → find? s'.unacked id = find? s.unacked id) := by
+  unfold SendRel.sendMessage at hs
+  by_cases c : s.mem + m.length > s.maxMem
+  · rw [if_pos c] at hs; cases hs
+  · rw [if_neg c] at hs
+    simp only [Except.ok.injEq] at hs
+    subst hs
+    have hu : (if m.length > SLICE_SIZE then Unacked.newSliced m else Unacked.small m none).OK ∧
+        (if m.length > SLICE_SIZE then Unacked.newSliced m else Unacked.small m none).msg = m := by
+      by_cases c2 : m.length > SLICE_SIZE
+      · rw [if_pos c2]; exact ⟨newSliced_ok m c2, rfl⟩
+      · rw [if_neg c2]; exact ⟨by simp only [Unacked.OK]; omega, rfl⟩
+    generalize (if m.length > SLICE_SIZE then Unacked.newSliced m else Unacked.small m none) = u at hu
+    refine ⟨⟨?_, ?_, ?_, ?_, ?_⟩, ⟨rfl, rfl, by dsimp only; omega, ?_⟩, rfl, rfl, ⟨u, hu.2, find?_insert_self _ _ _⟩, ?_⟩
+    · exact sorted_insert _ _ h.sorted
+    · intro x hx
+      rcases mem_insert hx with rfl | hx
+      · dsimp only; omega
+      · have := h.keys x hx; dsimp only; omega
+    · intro x hx
+      rcases mem_insert hx with rfl | hx
+      · exact hu.1
+      · exact h.entries x hx
+    · dsimp only
+      rw [insert_above u h.keys, msum_append, h.mem]
+      simp only [msum_cons, msum_nil, hu.2]; omega
+    · dsimp only; omega
+    · intro id u' hid hf
+      dsimp only at hf
+      rw [find?_insert_ne _ _ (by omega)] at hf
+      exact ⟨u', hf, Unacked.Kin.refl _⟩
+    · intro id hid
+      exact find?_insert_ne _ _ (fun e => hid e.symm)
+
+
+
+/-! ### get_packets_to_send (channel) -/
+
+/-- what `get_packets_to_send` may change in an entry: send times and the round-robin cursor -/
+def _root_.RenetVerif.Unacked.Sim : Unacked → Unacked → Prop
+  | .small m _, .small m' _ => m = m'
+  | .sliced m n k _ a ls, .sliced m' n' k' _ a' ls' => m = m' ∧ n = n' ∧ k = k' ∧ a = a' ∧ ls.length = ls'.length
+  | _, _ => False
+
+theorem _root_.RenetVerif.Unacked.Sim.kin : ∀ {a b : Unacked}, a.Sim b → a.Kin b
+  | .small .., .small .., h => h
+  | .sliced .., .sliced .., h => ⟨h.1, h.2.1⟩
+  | .small .., .sliced .., h => h.elim
+  | .sliced .., .small .., h => h.elim
+
+theorem _root_.RenetVerif.Unacked.Sim.ok : ∀ {a b : Unacked}, a.Sim b → a.OK → b.OK
+  | .small .., .small .., h, ho => by simp only [Unacked.Sim] at h; subst h; exact ho
+  | .sliced .., .sliced .., h, ho => by
+    obtain ⟨rfl, rfl, rfl, rfl, h5⟩ := h
+    obtain ⟨o1, o2, o3, o4, o5, o6⟩ := ho
+    exact ⟨o1, o2, o3, by omega, o5, o6⟩
+  | .small .., .sliced .., h, _ => h.elim
+  | .sliced .., .small .., h, _ => h.elim
+
+def MapSim : SMap Unacked → SMap Unacked → Prop
+  | [], [] => True
+  | (k, u) :: r, (k', u') :: r' => k = k' ∧ u.Sim u' ∧ MapSim r r'
+  | [], _ :: _ => False
+  | _ :: _, [] => False
+
+theorem _root_.RenetVerif.Unacked.Sim.refl : ∀ (u : Unacked), u.Sim u
+  | .small .. => rfl
+  | .sliced .. => ⟨rfl, rfl, rfl, rfl, rfl⟩
+
+theorem MapSim.refl : ∀ (a : SMap Unacked), MapSim a a
+  | [] => trivial
+  | (_, u) :: r => ⟨rfl, Unacked.Sim.refl u, MapSim.refl r⟩
+
+theorem MapSim.find : ∀ {a b : SMap Unacked}, MapSim a b → ∀ id,
+    (find? a id = none ∧ find? b id = none) ∨ ∃ u u', find? a id = some u ∧ find? b id = some u' ∧ u.Sim u'
+  | [], [], _, _ => Or.inl ⟨rfl, rfl⟩
+  | (k, u) :: r, (k', u') :: r', h, id => by
+    obtain ⟨rfl, h2, h3⟩ := h
+    simp only [find?_cons]
+    by_cases c : k = id
+    · simp only [if_pos c]; exact Or.inr ⟨u, u', rfl, rfl, h2⟩
+    · simp only [if_neg c]; exact MapSim.find h3 id
+  | [], _ :: _, h, _ => h.elim
+  | _ :: _, [], h, _ => h.elim
+
+theorem MapSim.msum : ∀ {a b : SMap Unacked}, MapSim a b → msum a = msum b
+  | [], [], _ => rfl
+  | (k, u) :: r, (k', u') :: r', h => by
+    simp only [msum_cons, MapSim.msum h.2.2, h.2.1.kin.msg]
+  | [], _ :: _, h => h.elim
+  | _ :: _, [], h => h.elim
+
+theorem MapSim.mem : ∀ {a b : SMap Unacked}, MapSim a b → ∀ x' ∈ b, ∃ x ∈ a, x.1 = x'.1 ∧ x.2.Sim x'.2
+  | [], [], _, _, hx => by cases hx
+  | (k, u) :: r, (k', u') :: r', h, x', hx => by
+    simp only [List.mem_cons] at hx
+    rcases hx with rfl | hx
+    · exact ⟨(k, u), by simp, h.1, h.2.1⟩
+    · obtain ⟨x, hx1, hx2⟩ := MapSim.mem h.2.2 x' hx
+      exact ⟨x, List.mem_cons_of_mem _ hx1, hx2⟩
+  | [], _ :: _, h, _, _ => h.elim
+  | _ :: _, [], h, _, _ => h.elim
+
+theorem MapSim.sorted : ∀ {a b : SMap Unacked}, MapSim a b → Sorted a → Sorted b
+  | [], [], _, _ => sorted_nil
+  | (k, u) :: r, (k', u') :: r', h, hs => by
+    rw [sorted_cons] at hs ⊢
+    obtain ⟨rfl, h2, h3⟩ := h
+    refine ⟨?_, MapSim.sorted h3 hs.2⟩
+    intro x' hx'
+    obtain ⟨x, hx1, hx2, -⟩ := MapSim.mem h3 x' hx'
+    have := hs.1 x hx1; omega
+  | [], _ :: _, h, _ => h.elim
+  | _ :: _, [], h, _ => h.elim
+
+/-- a packet emitted by the reliable send channel `ch` speaks about messages really stored in `U` -/
+def PktOK (ch : Nat) (U : SMap Unacked) : Packet → Prop
+  | .smallReliable _ ch' msgs => ch' = ch ∧ ∀ x ∈ msgs, ∃ ls, find? U x.1 = some (.small x.2 ls)
+  | .reliableSlice _ ch' sl => ch' = ch ∧ sl.sliceIndex < sl.numSlices ∧
+      ∃ m k nx a ls, find? U sl.messageId = some (.sliced m sl.numSlices k nx a ls) ∧
+        sl.payload = sliceBytes m sl.numSlices sl.sliceIndex
+  | _ => False
+
+theorem PktOK.mapSim {ch : Nat} {a b : SMap Unacked} (h : MapSim a b) : ∀ {p : Packet}, PktOK ch a p → PktOK ch b p
+  | .smallReliable _ _ msgs, hp => by
+    refine ⟨hp.1, fun x hx => ?_⟩
+    obtain ⟨ls, hf⟩ := hp.2 x hx
+    rcases h.find x.1 with ⟨h1, _⟩ | ⟨u, u', h1, h2, h3⟩
+    · rw [hf] at h1; cases h1
+    · rw [hf] at h1; cases h1
+      cases u' with
+      | small m' ls' => simp only [Unacked.Sim] at h3; subst h3; exact ⟨ls', h2⟩
+      | sliced => exact h3.elim
+  | .reliableSlice _ _ sl, hp => by
+    obtain ⟨h0, h1, m, k, nx, a, ls, hf, hpay⟩ := hp
+    refine ⟨h0, h1, ?_⟩
+    rcases h.find sl.messageId with ⟨h1, _⟩ | ⟨u, u', h1, h2, h3⟩
+    · rw [hf] at h1; cases h1
+    · rw [hf] at h1; cases h1
+      cases u' with
+      | small => exact h3.elim
+      | sliced m' n' k' nx' a' ls' =>
+        obtain ⟨rfl, rfl, rfl, rfl, -⟩ := h3
+        exact ⟨_, _, _, _, _, h2, hpay⟩
+  | .smallUnreliable .., hp => hp.elim
+  | .unreliableSlice .., hp => hp.elim
+  | .ack .., hp => hp.elim
+
+/-- loop invariant of one `get_packets_to_send` -/
+def GPOK (ch : Nat) (U : SMap Unacked) (seq0 : Nat) (gp : GP) : Prop :=
+  (∀ p ∈ gp.packets, PktOK ch U p ∧ seq0 ≤ p.sequence ∧ p.sequence < gp.seq) ∧
+  (∀ x ∈ gp.small, ∃ ls, find? U x.1 = some (.small x.2 ls)) ∧ seq0 ≤ gp.seq
+
+def dueOpt (now resend : Nat) : Option Nat → Bool
+  | some t => !decide (now - t < resend)
+  | none => true
+
+theorem slicedLoop_cons (ch id now resend : Nat) (msg : Bytes) (n start : Nat) (acked : List Bool) (i0 : Nat)
+    (rest : List Nat) (ls : List (Option Nat)) (next : Nat) (gp : GP) :
+    slicedLoop ch id now resend msg n start acked (i0 :: rest) (ls, next, gp) =
+      if gp.avail < SLICE_SIZE then (ls, next, gp) else
+      if acked.getD ((start + i0) % n) false = true then slicedLoop ch id now resend msg n start acked rest (ls, next, gp) else
+      if (!dueOpt now resend (ls.getD ((start + i0) % n) none)) = true then
+        slicedLoop ch id now resend msg n start acked rest (ls, next, gp)
+      else
+        slicedLoop ch id now resend msg n start acked rest
+          (ls.set ((start + i0) % n) (some now), (start + i0) % n + 1 % n,
+           { gp with
+              avail := gp.avail - (sliceBytes msg n ((start + i0) % n)).length,
+              packets := gp.packets ++ [Packet.reliableSlice gp.seq ch ⟨id, (start + i0) % n, n, sliceBytes msg n ((start + i0) % n)⟩],
+              seq := gp.seq + 1 }) := by
+  rfl
+
+/-- the state after queueing small message `(id, m)` (flushing the current packet first when it is full) -/
+def smallQueue (ch id : Nat) (m : Bytes) (gp : GP) : GP :=
+  let gp1 : GP := { gp with avail := gp.avail - m.length }
+  let ser := m.length + varintLen m.length + varintLen id
+  let gp2 := if gp1.smallBytes + ser > SLICE_SIZE then flushSmall ch gp1 else gp1
+  { gp2 with smallBytes := gp2.smallBytes + ser, small := gp2.small ++ [(id, m)] }
+
+theorem relLoop_small (ch now resend id : Nat) (m : Bytes) (lastSent : Option Nat) (rest : SMap Unacked) (gp : GP) :
+    relLoop ch now resend ((id, .small m lastSent) :: rest) gp =
+      if gp.avail < m.length ∨ dueOpt now resend lastSent = false then
+        ((id, .small m lastSent) :: (relLoop ch now resend rest gp).1, (relLoop ch now resend rest gp).2)
+      else
+        ((id, .small m (some now)) :: (relLoop ch now resend rest (smallQueue ch id m gp)).1,
+         (relLoop ch now resend rest (smallQueue ch id m gp)).2) := by
+  cases lastSent <;> rfl
+
+theorem relLoop_sliced (ch now resend id : Nat) (m : Bytes) (n numAcked next : Nat) (acked : List Bool)
+    (lastSent : List (Option Nat)) (rest : SMap Unacked) (gp : GP) :
+    relLoop ch now resend ((id, .sliced m n numAcked next acked lastSent) :: rest) gp =
+      let r := slicedLoop ch id now resend m n next acked (List.range n) (lastSent, next, gp)
+      ((id, .sliced m n numAcked r.2.1 acked r.1) :: (relLoop ch now resend rest r.2.2).1,
+       (relLoop ch now resend rest r.2.2).2) := by
+  rfl
+
+theorem slicedLoop_spec (ch id now resend : Nat) (msg : Bytes) (n start : Nat) (acked : List Bool)
+    (U : SMap Unacked) (seq0 : Nat) (hn : 0 < n)
+    (hU : ∃ k nx a ls, find? U id = some (.sliced msg n k nx a ls)) :
+    ∀ (l : List Nat) (ls : List (Option Nat)) (next : Nat) (gp : GP) (r : List (Option Nat) × Nat × GP),
+      slicedLoop ch id now resend msg n start acked l (ls, next, gp) = r → GPOK ch U seq0 gp →
+      r.1.length = ls.length ∧ GPOK ch U seq0 r.2.2 ∧ r.2.2.small = gp.small ∧ r.2.2.smallBytes = gp.smallBytes ∧
+      gp.seq ≤ r.2.2.seq
+  | [], ls, next, gp, r, hr, hg => by
+    simp only [slicedLoop] at hr; subst hr; exact ⟨rfl, hg, rfl, rfl, Nat.le_refl _⟩
+  | i0 :: rest, ls, next, gp, r, hr, hg => by
+    rw [slicedLoop_cons] at hr
+    have ihA := slicedLoop_spec ch id now resend msg n start acked U seq0 hn hU rest ls next gp r
+    split at hr
+    · subst hr; exact ⟨rfl, hg, rfl, rfl, Nat.le_refl _⟩
+    · split at hr
+      · exact ihA hr hg
+      · split at hr
+        · exact ihA hr hg
+        · have hg' : GPOK ch U seq0 { gp with
+              avail := gp.avail - (sliceBytes msg n ((start + i0) % n)).length,
+              packets := gp.packets ++ [Packet.reliableSlice gp.seq ch ⟨id, (start + i0) % n, n, sliceBytes msg n ((start + i0) % n)⟩],
+              seq := gp.seq + 1 } := by
+            obtain ⟨g1, g2, g3⟩ := hg
+            refine ⟨?_, g2, (by dsimp only; omega)⟩
+            intro p hp
+            simp only [List.mem_append, List.mem_singleton] at hp
+            rcases hp with hp | rfl
+            · obtain ⟨a1, a2, a3⟩ := g1 p hp
+              exact ⟨a1, a2, (by dsimp only; omega)⟩
+            · refine ⟨⟨rfl, Nat.mod_lt _ hn, ?_⟩, g3, (by simp [Packet.sequence])⟩
+              obtain ⟨k, nx, a, ls0, hf⟩ := hU
+              exact ⟨msg, k, nx, a, ls0, hf, rfl⟩
+          have ih := slicedLoop_spec ch id now resend msg n start acked U seq0 hn hU rest _ _ _ r hr hg'
+          obtain ⟨i1, i2, i3, i4, i5⟩ := ih
+          refine ⟨(by rw [i1, List.length_set]), i2, i3, i4, ?_⟩
+          dsimp only at i5; omega
+
+theorem flushSmall_ok {ch : Nat} {U : SMap Unacked} {seq0 : Nat} {gp : GP} (hg : GPOK ch U seq0 gp) :
+    GPOK ch U seq0 (flushSmall ch gp) := by
+  obtain ⟨g1, g2, g3⟩ := hg
+  unfold flushSmall
+  refine ⟨?_, (fun x hx => by cases hx), (by dsimp only; omega)⟩
+  intro p hp
+  simp only [List.mem_append, List.mem_singleton] at hp
+  rcases hp with hp | rfl
+  · obtain ⟨a1, a2, a3⟩ := g1 p hp
+    exact ⟨a1, a2, (by dsimp only; omega)⟩
+  · exact ⟨⟨rfl, g2⟩, g3, (by simp [Packet.sequence])⟩
+
+theorem flushSmall_seq (ch : Nat) (gp : GP) : (flushSmall ch gp).seq = gp.seq + 1 := rfl
+
+theorem smallQueue_ok {ch : Nat} {U : SMap Unacked} {seq0 id : Nat} {m : Bytes} {gp : GP} (hg : GPOK ch U seq0 gp)
+    (hsm : ∃ ls, find? U id = some (.small m ls)) :
+    GPOK ch U seq0 (smallQueue ch id m gp) ∧ gp.seq ≤ (smallQueue ch id m gp).seq := by
+  have key : ∀ g0 : GP, GPOK ch U seq0 g0 →
+      GPOK ch U seq0 { g0 with smallBytes := g0.smallBytes + (m.length + varintLen m.length + varintLen id),
+                                small := g0.small ++ [(id, m)] } := by
+    intro g0 ⟨g1, g2, g3⟩
+    refine ⟨g1, ?_, g3⟩
+    intro x hx
+    simp only [List.mem_append, List.mem_singleton] at hx
+    rcases hx with hx | rfl
+    · exact g2 x hx
+    · exact hsm
+  have hg1 : GPOK ch U seq0 { gp with avail := gp.avail - m.length } := hg
+  unfold smallQueue
+  dsimp only
+  split
+  · exact ⟨key _ (flushSmall_ok hg1), by simp only [flushSmall]; omega⟩
+  · exact ⟨key _ hg1, Nat.le_refl _⟩
+
+theorem relLoop_spec (ch now resend : Nat) (U : SMap Unacked) (seq0 : Nat) :
+    ∀ (l : SMap Unacked) (gp : GP),
+      (∀ x ∈ l, find? U x.1 = some x.2) → (∀ x ∈ l, x.2.OK) → GPOK ch U seq0 gp →
+      MapSim l (relLoop ch now resend l gp).1 ∧ GPOK ch U seq0 (relLoop ch now resend l gp).2 ∧
+      gp.seq ≤ (relLoop ch now resend l gp).2.seq
+  | [], gp, _, _, hg => ⟨trivial, hg, Nat.le_refl _⟩
+  | (id, .small m lastSent) :: rest, gp, hU, hok, hg => by
+    have hU' : ∀ x ∈ rest, find? U x.1 = some x.2 := fun x hx => hU x (List.mem_cons_of_mem _ hx)
+    have hok' : ∀ x ∈ rest, x.2.OK := fun x hx => hok x (List.mem_cons_of_mem _ hx)
+    rw [relLoop_small]
+    by_cases c0 : gp.avail < m.length ∨ dueOpt now resend lastSent = false
+    · simp only [if_pos c0]
+      obtain ⟨i1, i2, i3⟩ := relLoop_spec ch now resend U seq0 rest gp hU' hok' hg
+      exact ⟨⟨rfl, rfl, i1⟩, i2, i3⟩
+    · simp only [if_neg c0]
+      obtain ⟨q1, q2⟩ := smallQueue_ok (id := id) (m := m) hg ⟨lastSent, hU (id, .small m lastSent) (by simp)⟩
+      obtain ⟨i1, i2, i3⟩ := relLoop_spec ch now resend U seq0 rest _ hU' hok' q1
+      exact ⟨⟨rfl, rfl, i1⟩, i2, by omega⟩
+  | (id, .sliced m n numAcked next acked lastSent) :: rest, gp, hU, hok, hg => by
+    have hU' : ∀ x ∈ rest, find? U x.1 = some x.2 := fun x hx => hU x (List.mem_cons_of_mem _ hx)
+    have hok' : ∀ x ∈ rest, x.2.OK := fun x hx => hok x (List.mem_cons_of_mem _ hx)
+    have h0 := hok (id, .sliced m n numAcked next acked lastSent) (by simp)
+    have hn : 0 < n := by have := Unacked.OK.two_le h0; omega
+    have hf := hU (id, .sliced m n numAcked next acked lastSent) (by simp)
+    rw [relLoop_sliced]
+    obtain ⟨s1, s2, -, -, s5⟩ := slicedLoop_spec ch id now resend m n next acked U seq0 hn ⟨_, _, _, _, hf⟩
+      (List.range n) lastSent next gp _ rfl hg
+    obtain ⟨i1, i2, i3⟩ := relLoop_spec ch now resend U seq0 rest _ hU' hok' s2
+    refine ⟨⟨rfl, ⟨rfl, rfl, rfl, rfl, s1.symm⟩, i1⟩, i2, ?_⟩
+    dsimp only
+    omega
+
+theorem SendRel.getPackets_spec {s : SendRel} (h : s.Inv) (seq avail now : Nat) :
+    ∀ (s' : SendRel) (ps : List Packet) (seq' avail' : Nat), s.getPackets seq avail now = (s', ps, seq', avail') →
+      s'.Inv ∧ s.Step s' ∧ s'.mem = s.mem ∧ s'.nextId = s.nextId ∧ MapSim s.unacked s'.unacked ∧ seq ≤ seq' ∧
+      ∀ p ∈ ps, PktOK s'.ch s'.unacked p ∧ seq ≤ p.sequence ∧ p.sequence < seq' := by
+  intro s' ps seq' avail' hr
+  unfold SendRel.getPackets at hr
+  split at hr
+  · simp only [Prod.mk.injEq] at hr
+    obtain ⟨rfl, rfl, rfl, rfl⟩ := hr
+    exact ⟨h, SendRel.Step.refl _, rfl, rfl, MapSim.refl _, Nat.le_refl _, fun p hp => by cases hp⟩
+  · have hg0 : GPOK s.ch s.unacked seq ⟨[], [], 0, seq, avail⟩ :=
+      ⟨fun p hp => (by cases hp), fun x hx => (by cases hx), Nat.le_refl _⟩
+    obtain ⟨i1, i2, i3⟩ := relLoop_spec s.ch now s.resend s.unacked seq s.unacked _
+      (fun x hx => mem_find?_of_sorted h.sorted hx) h.entries hg0
+    generalize relLoop s.ch now s.resend s.unacked ⟨[], [], 0, seq, avail⟩ = rr at hr i1 i2 i3
+    obtain ⟨un, gp⟩ := rr
+    simp only [Prod.mk.injEq] at hr
+    obtain ⟨rfl, rfl, rfl, rfl⟩ := hr
+    · have i2' : GPOK s.ch s.unacked seq (if gp.small.isEmpty then gp else flushSmall s.ch gp) := by
+        split
+        · exact i2
+        · exact flushSmall_ok i2
+      have i3' : seq ≤ (if gp.small.isEmpty then gp else flushSmall s.ch gp).seq := i2'.2.2
+      refine ⟨⟨i1.sorted h.sorted, ?_, ?_, ?_, h.bound⟩, ⟨rfl, rfl, Nat.le_refl _, ?_⟩, rfl, rfl, i1, i3', ?_⟩
+      · intro x' hx'
+        obtain ⟨x, hx1, hx2, -⟩ := i1.mem x' hx'
+        have := h.keys x hx1; dsimp only; omega
+      · intro x' hx'
+        obtain ⟨x, hx1, -, hx3⟩ := i1.mem x' hx'
+        exact hx3.ok (h.entries x hx1)
+      · dsimp only; rw [← i1.msum]; exact h.mem
+      · intro id u' _ hf
+        dsimp only at hf
+        rcases i1.find id with ⟨_, h2⟩ | ⟨u, u'', h1, h2, h3⟩
+        · rw [hf] at h2; cases h2
+        · rw [hf] at h2; cases h2; exact ⟨u, h1, h3.kin⟩
+      · intro p hp
+        obtain ⟨a1, a2, a3⟩ := i2'.1 p hp
+        exact ⟨a1.mapSim i1, a2, a3⟩
+
+
+
+/-! ### acknowledgements (channel) -/
+
+theorem count_set_true {l : List Bool} {i : Nat} (h : l[i]? = some false) :
+    (l.set i true).count true = l.count true + 1 := by
+  obtain ⟨hi, he⟩ := List.getElem?_eq_some_iff.mp h
+  rw [List.count_set hi]; simp [he]
+
+/-- releasing an entry: memory accounting cannot underflow, the invariant survives -/
+theorem _root_.RenetVerif.SendRel.Inv.release {s : SendRel} (h : s.Inv) {id : Nat} {u : Unacked} (hf : find? s.unacked id = some u) :
+    u.msg.length ≤ s.mem ∧
+    ({ s with unacked := erase s.unacked id, mem := s.mem - u.msg.length } : SendRel).Inv ∧
+    s.Step { s with unacked := erase s.unacked id, mem := s.mem - u.msg.length } := by
+  have hge := msum_ge hf
+  have he := msum_erase hf
+  have hm := h.mem
+  have hb := h.bound
+  refine ⟨by omega, ⟨sorted_erase _ h.sorted, fun x hx => h.keys x (mem_erase hx),
+    fun x hx => h.entries x (mem_erase hx), by dsimp only; omega, by dsimp only; omega⟩,
+    ⟨rfl, rfl, Nat.le_refl _, ?_⟩⟩
+  intro id' u' _ hf'
+  exact ⟨u', (find?_erase_some h.sorted hf').2, Unacked.Kin.refl _⟩
+
+/-- replacing an entry by one of the same kind and payload -/
+theorem _root_.RenetVerif.SendRel.Inv.replace {s : SendRel} (h : s.Inv) {id : Nat} {u v : Unacked} (hf : find? s.unacked id = some u)
+    (hk : u.Kin v) (hv : v.OK) :
+    ({ s with unacked := SMap.insert s.unacked id v } : SendRel).Inv ∧
+    s.Step { s with unacked := SMap.insert s.unacked id v } := by
+  have hi := msum_insert_replace v h.sorted hf
+  have hm := h.mem
+  have hmsg := hk.msg
+  refine ⟨⟨sorted_insert _ _ h.sorted, ?_, ?_, by dsimp only; rw [hmsg] at hi; omega, h.bound⟩,
+    ⟨rfl, rfl, Nat.le_refl _, ?_⟩⟩
+  · intro x hx
+    rcases mem_insert hx with rfl | hx
+    · exact h.find_lt hf
+    · exact h.keys x hx
+  · intro x hx
+    rcases mem_insert hx with rfl | hx
+    · exact hv
+    · exact h.entries x hx
+  · intro id' u' _ hf'
+    dsimp only at hf'
+    rw [find?_insert] at hf'
+    by_cases c : id = id'
+    · rw [if_pos c] at hf'; cases hf'; subst c; exact ⟨u, hf, hk⟩
+    · rw [if_neg c] at hf'; exact ⟨u', hf', Unacked.Kin.refl _⟩
+
+/-- `process_message_ack` on an id that is absent or bound to a small message never panics -/
+theorem SendRel.processMessageAck_spec {s : SendRel} (h : s.Inv) (id : Nat)
+    (hk : ∀ u, find? s.unacked id = some u → u.IsSmall) :
+    ∃ s', s.processMessageAck id = .ok s' ∧ s'.Inv ∧ s.Step s' ∧
+      ((find? s.unacked id = none ∧ s' = s) ∨
+       ∃ m ls, find? s.unacked id = some (.small m ls) ∧ m.length ≤ s.mem ∧
+         s' = { s with unacked := erase s.unacked id, mem := s.mem - m.length }) := by
+  unfold SendRel.processMessageAck
+  cases hf : find? s.unacked id with
+  | none => exact ⟨s, rfl, h, SendRel.Step.refl _, Or.inl ⟨rfl, rfl⟩⟩
+  | some u =>
+    cases u with
+    | sliced => exact (hk _ hf).elim
+    | small m ls =>
+      obtain ⟨r1, r2, r3⟩ := h.release hf
+      simp only [Unacked.msg] at r1 r2 r3
+      refine ⟨_, ?_, r2, r3, Or.inr ⟨m, ls, rfl, r1, rfl⟩⟩
+      simp only [Res.csub, if_pos r1, Res.bind_ok, Res.pure_eq]
+
+/-- `process_slice_ack` on an id that is absent or bound to a sliced message with `idx < n` never panics -/
+theorem SendRel.processSliceAck_spec {s : SendRel} (h : s.Inv) (id idx : Nat)
+    (hk : ∀ u, find? s.unacked id = some u → u.SliceIdx idx) :
+    ∃ s', s.processSliceAck id idx = .ok s' ∧ s'.Inv ∧ s.Step s' ∧
+      ((find? s.unacked id = none ∧ s' = s) ∨
+       ∃ m n k nx acked ls, find? s.unacked id = some (.sliced m n k nx acked ls) ∧
+         ((acked[idx]? = some true ∧ s' = s) ∨
+          (acked[idx]? = some false ∧ k + 1 = n ∧ m.length ≤ s.mem ∧
+             s' = { s with unacked := erase s.unacked id, mem := s.mem - m.length }) ∨
+          (acked[idx]? = some false ∧ k + 1 ≠ n ∧
+             s' = { s with unacked := SMap.insert s.unacked id (.sliced m n (k + 1) nx (acked.set idx true) ls) }))) := by
+  unfold SendRel.processSliceAck
+  cases hf : find? s.unacked id with
+  | none => exact ⟨s, rfl, h, SendRel.Step.refl _, Or.inl ⟨rfl, rfl⟩⟩
+  | some u =>
+    cases u with
+    | small => exact (hk _ hf).elim
+    | sliced m n k nx acked ls =>
+      have hidx : idx < n := hk _ hf
+      obtain ⟨o1, o2, o3, o4, o5, o6⟩ := h.find_ok hf
+      have hlt : idx < acked.length := by omega
+      simp only
+      cases hb : acked[idx]? with
+      | none => rw [List.getElem?_eq_none_iff] at hb; omega
+      | some b =>
+        cases b with
+        | true => exact ⟨s, rfl, h, SendRel.Step.refl _, Or.inr ⟨m, n, k, nx, acked, ls, rfl, Or.inl ⟨hb, rfl⟩⟩⟩
+        | false =>
+          simp only
+          by_cases c : k + 1 = n
+          · rw [if_pos c]
+            obtain ⟨r1, r2, r3⟩ := h.release hf
+            simp only [Unacked.msg] at r1 r2 r3
+            refine ⟨_, ?_, r2, r3, Or.inr ⟨m, n, k, nx, acked, ls, rfl, Or.inr (Or.inl ⟨hb, c, r1, rfl⟩)⟩⟩
+            simp only [Res.csub, if_pos r1, Res.bind_ok, Res.pure_eq]
+          · rw [if_neg c]
+            have hcnt := count_set_true hb
+            have hle : (acked.set idx true).count true ≤ (acked.set idx true).length := List.count_le_length
+            rw [List.length_set] at hle
+            have hv : (Unacked.sliced m n (k + 1) nx (acked.set idx true) ls).OK :=
+              ⟨o1, o2, by rw [List.length_set]; exact o3, o4, by omega, by omega⟩
+            obtain ⟨r2, r3⟩ := h.replace hf (v := .sliced m n (k + 1) nx (acked.set idx true) ls) ⟨rfl, rfl⟩ hv
+            exact ⟨_, rfl, r2, r3, Or.inr ⟨m, n, k, nx, acked, ls, rfl, Or.inr (Or.inr ⟨hb, c, rfl⟩)⟩⟩
+
+/-! #### consequences used at connection level -/
+
+/-- slice `i` of message `id` is stored and not yet acknowledged -/
+def _root_.RenetVerif.SendRel.Pending (s : SendRel) (id i : Nat) : Prop :=
+  ∃ m n k nx acked ls, find? s.unacked id = some (.sliced m n k nx acked ls) ∧ acked[i]? = some false
+
+/-- generic description of one acknowledgement step on message `id`:
+    other ids untouched, memory never grows and shrinks only by releasing `id` -/
+structure _root_.RenetVerif.SendRel.AckStep (s s' : SendRel) (id : Nat) : Prop where
+  others : ∀ id', id' ≠ id → find? s'.unacked id' = find? s.unacked id'
+  memLe : s'.mem ≤ s.mem
+  memLt : s'.mem < s.mem → (∃ u, find? s.unacked id = some u) ∧ find? s'.unacked id = none
+  gone : ∀ id', find? s.unacked id' = none → find? s'.unacked id' = none
+
+theorem _root_.RenetVerif.SendRel.AckStep.refl (s : SendRel) (id : Nat) : s.AckStep s id :=
+  ⟨fun _ _ => rfl, Nat.le_refl _, fun h => absurd h (Nat.lt_irrefl _), fun _ h => h⟩
+
+theorem SendRel.ackStep_release {s : SendRel} (h : s.Inv) {id : Nat} {u : Unacked} (hf : find? s.unacked id = some u) :
+    s.AckStep { s with unacked := erase s.unacked id, mem := s.mem - u.msg.length } id := by
+  refine ⟨fun id' hne => find?_erase_ne _ (fun e => hne e.symm), by dsimp only; omega,
+    fun _ => ⟨⟨u, hf⟩, find?_erase_self _ h.sorted⟩, ?_⟩
+  intro id' hn
+  dsimp only
+  rw [find?_erase h.sorted]
+  split
+  · rfl
+  · exact hn
+
+theorem SendRel.processMessageAck_step {s s' : SendRel} (h : s.Inv) {id : Nat}
+    (hk : ∀ u, find? s.unacked id = some u → u.IsSmall) (hr : s.processMessageAck id = .ok s') :
+    s.AckStep s' id ∧ (∀ id' i, s.Pending id' i → s'.Pending id' i) := by
+  obtain ⟨s2, e, -, -, hd⟩ := SendRel.processMessageAck_spec h id hk
+  rw [e] at hr; cases hr
+  rcases hd with ⟨-, rfl⟩ | ⟨m, ls, hf, -, rfl⟩
+  · exact ⟨SendRel.AckStep.refl _ _, fun _ _ hp => hp⟩
+  · refine ⟨SendRel.ackStep_release h hf, ?_⟩
+    intro id' i ⟨m', n', k', nx', a', ls', hf', ha'⟩
+    have hne : id ≠ id' := by
+      intro e; subst e; rw [hf] at hf'; cases hf'
+    exact ⟨m', n', k', nx', a', ls', by dsimp only; rw [find?_erase_ne _ hne]; exact hf', ha'⟩
+
+theorem SendRel.processSliceAck_step {s s' : SendRel} (h : s.Inv) {id idx : Nat}
+    (hk : ∀ u, find? s.unacked id = some u → u.SliceIdx idx) (hr : s.processSliceAck id idx = .ok s') :
+    s.AckStep s' id ∧ (∀ id' i, s.Pending id' i → (id' = id ∧ i = idx) ∨ s'.Pending id' i) := by
+  obtain ⟨s2, e, -, -, hd⟩ := SendRel.processSliceAck_spec h id idx hk
+  rw [e] at hr; cases hr
+  rcases hd with ⟨-, rfl⟩ | ⟨m, n, k, nx, acked, ls, hf, hd⟩
+  · exact ⟨SendRel.AckStep.refl _ _, fun _ _ hp => Or.inr hp⟩
+  · rcases hd with ⟨-, rfl⟩ | ⟨hb, hkn, -, rfl⟩ | ⟨hb, -, rfl⟩
+    · exact ⟨SendRel.AckStep.refl _ _, fun _ _ hp => Or.inr hp⟩
+    · refine ⟨SendRel.ackStep_release h hf, ?_⟩
+      intro id' i ⟨m', n', k', nx', a', ls', hf', ha'⟩
+      by_cases hne : id = id'
+      · subst hne
+        rw [hf] at hf'; cases hf'
+        by_cases hi : i = idx
+        · exact Or.inl ⟨rfl, hi⟩
+        · -- all slices but `idx` are already acknowledged: `k + 1 = n`
+          exfalso
+          obtain ⟨o1, o2, o3, o4, o5, o6⟩ := h.find_ok hf
+          have hcnt := count_set_true hb
+          have hall : (acked.set idx true).count true = (acked.set idx true).length := by
+            rw [List.length_set]; omega
+          rw [List.count_eq_length] at hall
+          have hi' : i < acked.length := (List.getElem?_eq_some_iff.mp ha').1
+          have : (acked.set idx true)[i]? = some false := by
+            rw [List.getElem?_set_ne (fun e => hi e.symm)]; exact ha'
+          have hm := List.mem_of_getElem? this
+          have := hall false hm
+          cases this
+      · exact Or.inr ⟨m', n', k', nx', a', ls', by dsimp only; rw [find?_erase_ne _ hne]; exact hf', ha'⟩
+    · refine ⟨⟨?_, Nat.le_refl _, fun hlt => absurd hlt (Nat.lt_irrefl _), ?_⟩, ?_⟩
+      · intro id' hne
+        exact find?_insert_ne _ _ (fun e => hne e.symm)
+      · intro id' hn
+        dsimp only
+        rw [find?_insert]
+        split
+        · rename_i e; subst e; rw [hf] at hn; cases hn
+        · exact hn
+      · intro id' i ⟨m', n', k', nx', a', ls', hf', ha'⟩
+        by_cases hne : id = id'
+        · subst hne
+          rw [hf] at hf'; cases hf'
+          by_cases hi : i = idx
+          · exact Or.inl ⟨rfl, hi⟩
+          · refine Or.inr ⟨m, n, k + 1, nx, acked.set idx true, ls, find?_insert_self _ _ _, ?_⟩
+            rw [List.getElem?_set_ne (fun e => hi e.symm)]; exact ha'
+        · exact Or.inr ⟨m', n', k', nx', a', ls', by dsimp only; rw [find?_insert_ne _ _ hne]; exact hf', ha'⟩
+
+/-- sending and (re)transmitting never un-marks or drops a pending slice -/
+theorem SendRel.sendMessage_pending {s s' : SendRel} {m : Bytes} (h : s.Inv) (hs : s.sendMessage m = .ok s')
+    {id i : Nat} (hp : s.Pending id i) : s'.Pending id i := by
+  obtain ⟨m', n', k', nx', a', ls', hf', ha'⟩ := hp
+  obtain ⟨-, -, -, -, -, hfind⟩ := SendRel.sendMessage_spec h hs
+  have : id ≠ s.nextId := by have := h.find_lt hf'; omega
+  exact ⟨m', n', k', nx', a', ls', by rw [hfind id this]; exact hf', ha'⟩
+
+theorem MapSim.pending {s s' : SendRel} (hsim : MapSim s.unacked s'.unacked) {id i : Nat} (hp : s.Pending id i) :
+    s'.Pending id i := by
+  obtain ⟨m', n', k', nx', a', ls', hf', ha'⟩ := hp
+  rcases hsim.find id with ⟨h1, _⟩ | ⟨u, u', h1, h2, h3⟩
+  · rw [hf'] at h1; cases h1
+  · rw [hf'] at h1; cases h1
+    cases u' with
+    | small => exact h3.elim
+    | sliced m2 n2 k2 nx2 a2 ls2 =>
+      obtain ⟨rfl, rfl, rfl, rfl, -⟩ := h3
+      exact ⟨_, _, _, _, _, _, h2, ha'⟩
+
+/-- `unacked` keys only grow under send / get_packets -/
+theorem MapSim.contains {a b : SMap Unacked} (hsim : MapSim a b) (id : Nat) : SMap.contains b id = SMap.contains a id := by
+  unfold SMap.contains
+  rcases hsim.find id with ⟨h1, h2⟩ | ⟨u, u', h1, h2, _⟩
+  · rw [h1, h2]
+  · rw [h1, h2]; rfl
+
+
+
+/-! ## Part 3 : RenetClient -/
+
+def _root_.RenetVerif.SentInfo.chan? : SentInfo → Option Nat
+  | .relMsgs ch _ => some ch
+  | .relSlice ch _ _ => some ch
+  | _ => Option.none
+
+/-- a recorded packet is consistent with the reliable send channels -/
+def InfoOKC (sr : SMap SendRel) (info : SentInfo) : Prop :=
+  ∀ ch, info.chan? = some ch → ∃ s, find? sr ch = some s ∧ s.InfoOK info
+
+/-- every channel present before is present after and is a `Step` later; no channel appears -/
+def SRStep (sr sr' : SMap SendRel) : Prop :=
+  (∀ ch, (find? sr' ch).isSome = (find? sr ch).isSome) ∧
+  ∀ ch s s', find? sr ch = some s → find? sr' ch = some s' → s.Step s'
+
+theorem SRStep.refl (sr : SMap SendRel) : SRStep sr sr :=
+  ⟨fun _ => rfl, fun _ s s' h h' => by rw [h] at h'; cases h'; exact SendRel.Step.refl _⟩
+
+theorem SRStep.trans {a b c : SMap SendRel} (h1 : SRStep a b) (h2 : SRStep b c) : SRStep a c := by
+  refine ⟨fun ch => (h2.1 ch).trans (h1.1 ch), ?_⟩
+  intro ch s s'' hs hs''
+  have := h1.1 ch
+  rw [hs] at this
+  cases hb : find? b ch with
+  | none => rw [hb] at this; cases this
+  | some s' => exact (h1.2 ch s s' hs hb).trans (h2.2 ch s' s'' hb hs'')
+
+theorem SRStep.update {sr : SMap SendRel} {ch : Nat} {s s' : SendRel} (hf : find? sr ch = some s) (hst : s.Step s') :
+    SRStep sr (SMap.insert sr ch s') := by
+  refine ⟨?_, ?_⟩
+  · intro ch'
+    rw [find?_insert]
+    by_cases c : ch = ch'
+    · rw [if_pos c, ← c, hf]; rfl
+    · rw [if_neg c]
+  · intro ch' s0 s0' h0 h0'
+    rw [find?_insert] at h0'
+    by_cases c : ch = ch'
+    · rw [if_pos c] at h0'; cases h0'; subst c; rw [hf] at h0; cases h0; exact hst
+    · rw [if_neg c, h0] at h0'; cases h0'; exact SendRel.Step.refl _
+
+theorem InfoOKC.step {sr sr' : SMap SendRel} (h : SRStep sr sr') {info : SentInfo} (hi : InfoOKC sr info) :
+    InfoOKC sr' info := by
+  intro ch hch
+  obtain ⟨s, hf, hok⟩ := hi ch hch
+  have := h.1 ch
+  rw [hf] at this
+  cases hb : find? sr' ch with
+  | none => rw [hb] at this; cases this
+  | some s' => exact ⟨s', rfl, hok.step (h.2 ch s s' hf hb)⟩
+
+/-- all reliable send channels satisfy the channel invariant and know their own id -/
+def ChansOK (sr : SMap SendRel) : Prop := ∀ ch s, find? sr ch = some s → s.Inv ∧ s.ch = ch
+
+theorem ChansOK.update {sr : SMap SendRel} (h : ChansOK sr) {ch : Nat} {s' : SendRel} (hi : s'.Inv) (hc : s'.ch = ch) :
+    ChansOK (SMap.insert sr ch s') := by
+  intro ch' s0 h0
+  rw [find?_insert] at h0
+  by_cases c : ch = ch'
+  · rw [if_pos c] at h0; cases h0; subst c; exact ⟨hi, hc⟩
+  · rw [if_neg c] at h0; exact h ch' s0 h0
+
+structure _root_.RenetVerif.Conn.SendInv (c : Conn) : Prop where
+  chans : ChansOK c.sendRel
+  sentSorted : Sorted c.sent
+  sentOK : ∀ x ∈ c.sent, x.1 < c.packetSeq ∧ InfoOKC c.sendRel x.2.2
+  order : ∀ x ∈ c.order, if x.1 = true then (find? c.sendRel x.2).isSome = true else (find? c.sendUnrel x.2).isSome = true
+
+/-- the send-side fields (everything `SendInv` talks about) are equal -/
+def _root_.RenetVerif.Conn.SendSame (c c' : Conn) : Prop :=
+  c'.sendRel = c.sendRel ∧ c'.sendUnrel = c.sendUnrel ∧ c'.sent = c.sent ∧ c'.packetSeq = c.packetSeq ∧ c'.order = c.order
+
+theorem _root_.RenetVerif.Conn.SendSame.refl (c : Conn) : c.SendSame c := ⟨rfl, rfl, rfl, rfl, rfl⟩
+
+theorem _root_.RenetVerif.Conn.SendSame.trans {a b c : Conn} (h1 : a.SendSame b) (h2 : b.SendSame c) : a.SendSame c := by
+  obtain ⟨a1, a2, a3, a4, a5⟩ := h1
+  obtain ⟨b1, b2, b3, b4, b5⟩ := h2
+  exact ⟨b1.trans a1, b2.trans a2, b3.trans a3, b4.trans a4, b5.trans a5⟩
+
+theorem _root_.RenetVerif.Conn.SendInv.same {c c' : Conn} (h : c.SendInv) (hs : c.SendSame c') : c'.SendInv := by
+  obtain ⟨a1, a2, a3, a4, a5⟩ := hs
+  obtain ⟨h1, h2, h3, h4⟩ := h
+  exact ⟨a1 ▸ h1, a3 ▸ h2, by rw [a1, a3, a4]; exact h3, by rw [a1, a2, a5]; exact h4⟩
+
+theorem _root_.RenetVerif.Conn.disconnectWith_same (c : Conn) (r : Reason) :
+    c.SendSame (c.disconnectWith r) ∧ (c.disconnectWith r).pendingAcks = c.pendingAcks ∧
+    (c.disconnectWith r).recvRel = c.recvRel ∧ (c.disconnectWith r).recvUnrel = c.recvUnrel := by
+  unfold Conn.disconnectWith
+  split
+  · exact ⟨Conn.SendSame.refl _, rfl, rfl, rfl⟩
+  · exact ⟨⟨rfl, rfl, rfl, rfl, rfl⟩, rfl, rfl, rfl⟩
+
+/-- replacing one reliable send channel by a later `Step` of itself -/
+theorem _root_.RenetVerif.Conn.SendInv.updateChan {c : Conn} (h : c.SendInv) {ch : Nat} {s s' : SendRel}
+    (hf : find? c.sendRel ch = some s) (hi : s'.Inv) (hst : s.Step s') :
+    ({ c with sendRel := SMap.insert c.sendRel ch s' } : Conn).SendInv := by
+  have hsr := SRStep.update hf hst
+  refine ⟨h.chans.update hi (hst.1.trans (h.chans ch s hf).2), h.sentSorted, ?_, ?_⟩
+  · intro x hx
+    obtain ⟨a, b⟩ := h.sentOK x hx
+    exact ⟨a, b.step hsr⟩
+  · intro x hx
+    have := h.order x hx
+    dsimp only
+    split
+    · rename_i hb; rw [if_pos hb] at this; rw [hsr.1]; exact this
+    · rename_i hb; rw [if_neg hb] at this; exact this
+
+/-! ### send_message / receive_message / update -/
+
+theorem Conn.sendMessage_inv {c c' : Conn} {ch : Nat} {m : Bytes} (h : c.SendInv) (hr : c.sendMessage ch m = .ok c') :
+    c'.SendInv := by
+  unfold Conn.sendMessage at hr
+  split at hr
+  · cases hr; exact h
+  · split at hr
+    · rename_i s hf
+      split at hr
+      · rename_i s' hs
+        cases hr
+        obtain ⟨i1, i2, -⟩ := SendRel.sendMessage_spec (h.chans ch s hf).1 hs
+        exact h.updateChan hf i1 i2
+      · cases hr
+        exact h.same (c.disconnectWith_same _).1
+    · split at hr
+      · rename_i su hfu
+        cases hr
+        obtain ⟨h1, h2, h3, h4⟩ := h
+        refine ⟨h1, h2, h3, ?_⟩
+        intro x hx
+        have := h4 x hx
+        dsimp only
+        split
+        · rename_i hb; rw [if_pos hb] at this; exact this
+        · rename_i hb; rw [if_neg hb] at this
+          rw [find?_insert]
+          split
+          · rfl
+          · exact this
+      · cases hr
+
+/-- `send_message` never removes an unacknowledged message -/
+theorem Conn.sendMessage_keeps {c c' : Conn} {ch0 : Nat} {m : Bytes} (h : c.SendInv) (hr : c.sendMessage ch0 m = .ok c')
+    {ch : Nat} {s : SendRel} (hs : find? c.sendRel ch = some s) :
+    ∃ s', find? c'.sendRel ch = some s' ∧ s.mem ≤ s'.mem ∧ s'.maxMem = s.maxMem ∧
+      (∀ id u, find? s.unacked id = some u → find? s'.unacked id = some u) ∧
+      (∀ id i, s.Pending id i → s'.Pending id i) := by
+  have triv : ∃ s', find? c.sendRel ch = some s' ∧ s.mem ≤ s'.mem ∧ s'.maxMem = s.maxMem ∧
+      (∀ id u, find? s.unacked id = some u → find? s'.unacked id = some u) ∧
+      (∀ id i, s.Pending id i → s'.Pending id i) :=
+    ⟨s, hs, Nat.le_refl _, rfl, fun _ _ h => h, fun _ _ h => h⟩
+  unfold Conn.sendMessage at hr
+  split at hr
+  · cases hr; exact triv
+  · split at hr
+    · rename_i s0 hf
+      split at hr
+      · rename_i s0' hs0
+        cases hr
+        dsimp only
+        rw [find?_insert]
+        by_cases cc : ch0 = ch
+        · subst cc
+          rw [hs] at hf; cases hf
+          rw [if_pos rfl]
+          have hinv := (h.chans ch0 s hs).1
+          obtain ⟨i1, i2, i3, i4, i5, i6⟩ := SendRel.sendMessage_spec hinv hs0
+          refine ⟨s0', rfl, by omega, i2.2.1, ?_, fun id i hp => SendRel.sendMessage_pending hinv hs0 hp⟩
+          intro id u hu
+          have : id ≠ s.nextId := by have := hinv.find_lt hu; omega
+          rw [i6 id this]; exact hu
+        · rw [if_neg cc]; exact triv
+      · cases hr
+        rw [(c.disconnectWith_same _).1.1]; exact triv
+    · split at hr
+      · cases hr; exact triv
+      · cases hr
+
+theorem Conn.receiveMessage_same {c c' : Conn} {ch : Nat} {m : Option Bytes} (hr : c.receiveMessage ch = .ok (c', m)) :
+    c.SendSame c' ∧ c'.pendingAcks = c.pendingAcks := by
+  unfold Conn.receiveMessage at hr
+  split at hr
+  · cases hr; exact ⟨Conn.SendSame.refl _, rfl⟩
+  · split at hr
+    · rename_i r hf
+      cases hrr : r.receive with
+      | ok x => rw [hrr] at hr; simp only [Res.bind_ok, Res.pure_eq] at hr; cases hr; exact ⟨⟨rfl, rfl, rfl, rfl, rfl⟩, rfl⟩
+      | err e => exact e.elim
+      | panic s => rw [hrr] at hr; cases hr
+    · split at hr
+      · rename_i r hf
+        cases hrr : r.receive with
+        | ok x => rw [hrr] at hr; simp only [Res.bind_ok, Res.pure_eq] at hr; cases hr; exact ⟨⟨rfl, rfl, rfl, rfl, rfl⟩, rfl⟩
+        | err e => exact e.elim
+        | panic s => rw [hrr] at hr; cases hr
+      · cases hr
+
+theorem Conn.update_spec {c c' : Conn} {dt : Nat} (hr : c.update dt = .ok c') :
+    c'.sendRel = c.sendRel ∧ c'.sendUnrel = c.sendUnrel ∧ c'.packetSeq = c.packetSeq ∧ c'.order = c.order ∧
+    c'.pendingAcks = c.pendingAcks ∧
+    c'.sent = c.sent.dropWhile (fun (_, (t, _)) => c.now + dt - t ≥ DISCARD_AFTER_NS) := by
+  unfold Conn.update at hr
+  dsimp only at hr
+  cases hd : Conn.discardAll (c.now + dt) c.recvUnrel with
+  | ok ru => rw [hd] at hr; simp only [Res.bind_ok, Res.pure_eq] at hr; cases hr; exact ⟨rfl, rfl, rfl, rfl, rfl, rfl⟩
+  | err e => exact e.elim
+  | panic s => rw [hd] at hr; cases hr
+
+theorem Conn.update_inv {c c' : Conn} {dt : Nat} (h : c.SendInv) (hr : c.update dt = .ok c') : c'.SendInv := by
+  obtain ⟨e1, e2, e3, e4, -, e6⟩ := Conn.update_spec hr
+  obtain ⟨h1, h2, h3, h4⟩ := h
+  have hsub := List.dropWhile_sublist (l := c.sent) (fun (_, (t, _)) => c.now + dt - t ≥ DISCARD_AFTER_NS)
+  refine ⟨e1 ▸ h1, ?_, ?_, by rw [e1, e2, e4]; exact h4⟩
+  · rw [e6]; exact List.Pairwise.sublist hsub h2
+  · rw [e6, e1, e3]
+    intro x hx
+    exact h3 x (hsub.subset hx)
+
+
+
+/-! ### get_packets_to_send (connection) -/
+
+def _root_.RenetVerif.Packet.isAck : Packet → Bool
+  | .ack .. => true
+  | _ => false
+
+theorem _root_.RenetVerif.Unacked.Sim.trans : ∀ {a b c : Unacked}, a.Sim b → b.Sim c → a.Sim c
+  | .small .., .small .., .small .., h1, h2 => Eq.trans h1 h2
+  | .sliced .., .sliced .., .sliced .., h1, h2 =>
+    ⟨h1.1.trans h2.1, h1.2.1.trans h2.2.1, h1.2.2.1.trans h2.2.2.1, h1.2.2.2.1.trans h2.2.2.2.1, h1.2.2.2.2.trans h2.2.2.2.2⟩
+  | .small .., .sliced .., _, h1, _ => h1.elim
+  | .sliced .., .small .., _, h1, _ => h1.elim
+  | .small .., .small .., .sliced .., _, h2 => h2.elim
+  | .sliced .., .sliced .., .small .., _, h2 => h2.elim
+
+theorem MapSim.trans : ∀ {a b c : SMap Unacked}, MapSim a b → MapSim b c → MapSim a c
+  | [], [], [], _, _ => trivial
+  | (_, _) :: _, (_, _) :: _, (_, _) :: _, h1, h2 => ⟨h1.1.trans h2.1, h1.2.1.trans h2.2.1, MapSim.trans h1.2.2 h2.2.2⟩
+  | [], _ :: _, _, h1, _ => h1.elim
+  | _ :: _, [], _, h1, _ => h1.elim
+  | [], [], _ :: _, _, h2 => h2.elim
+  | _ :: _, _ :: _, [], _, h2 => h2.elim
+
+/-- relation between the reliable send channels before and after `get_packets_to_send` -/
+def SRGet (sr sr' : SMap SendRel) : Prop :=
+  SRStep sr sr' ∧ ∀ ch s s', find? sr ch = some s → find? sr' ch = some s' →
+    MapSim s.unacked s'.unacked ∧ s'.mem = s.mem
+
+theorem SRGet.refl (sr : SMap SendRel) : SRGet sr sr :=
+  ⟨SRStep.refl _, fun _ s s' h h' => by rw [h] at h'; cases h'; exact ⟨MapSim.refl _, rfl⟩⟩
+
+theorem SRGet.trans {a b c : SMap SendRel} (h1 : SRGet a b) (h2 : SRGet b c) : SRGet a c := by
+  refine ⟨h1.1.trans h2.1, ?_⟩
+  intro ch s s'' hs hs''
+  have := h1.1.1 ch
+  rw [hs] at this
+  cases hb : find? b ch with
+  | none => rw [hb] at this; cases this
+  | some s' =>
+    obtain ⟨a1, a2⟩ := h1.2 ch s s' hs hb
+    obtain ⟨b1, b2⟩ := h2.2 ch s' s'' hb hs''
+    exact ⟨a1.trans b1, b2.trans a2⟩
+
+theorem SRGet.update {sr : SMap SendRel} {ch : Nat} {s s' : SendRel} (hf : find? sr ch = some s) (hst : s.Step s')
+    (hsim : MapSim s.unacked s'.unacked) (hm : s'.mem = s.mem) : SRGet sr (SMap.insert sr ch s') := by
+  refine ⟨SRStep.update hf hst, ?_⟩
+  intro ch' s0 s0' h0 h0'
+  rw [find?_insert] at h0'
+  by_cases c : ch = ch'
+  · rw [if_pos c] at h0'; cases h0'; subst c; rw [hf] at h0; cases h0; exact ⟨hsim, hm⟩
+  · rw [if_neg c, h0] at h0'; cases h0'; exact ⟨MapSim.refl _, rfl⟩
+
+/-- the info recorded for a non-ack packet is consistent with the channels -/
+def PInfoOK (sr : SMap SendRel) (p : Packet) : Prop :=
+  p.isAck = false ∧ ∀ info, Conn.sentInfoOf p = .ok info → InfoOKC sr info
+
+theorem PInfoOK.step {sr sr' : SMap SendRel} (h : SRStep sr sr') {p : Packet} (hp : PInfoOK sr p) : PInfoOK sr' p :=
+  ⟨hp.1, fun info hi => (hp.2 info hi).step h⟩
+
+theorem sentInfoOf_of_not_ack : ∀ {p : Packet}, p.isAck = false → ∃ info, Conn.sentInfoOf p = .ok info
+  | .smallReliable .., _ => ⟨_, rfl⟩
+  | .smallUnreliable .., _ => ⟨_, rfl⟩
+  | .reliableSlice .., _ => ⟨_, rfl⟩
+  | .unreliableSlice .., _ => ⟨_, rfl⟩
+  | .ack .., h => by cases h
+
+/-- a packet emitted by reliable channel `s` (registered under its own id) records a consistent info -/
+theorem PktOK.pinfo {sr : SMap SendRel} {s : SendRel} (hf : find? sr s.ch = some s) (hi : s.Inv) :
+    ∀ {p : Packet}, PktOK s.ch s.unacked p → PInfoOK sr p
+  | .smallReliable _ ch' msgs, hp => by
+    obtain ⟨rfl, hm⟩ := hp
+    refine ⟨rfl, ?_⟩
+    intro info hinfo
+    simp only [Conn.sentInfoOf, Res.ok.injEq] at hinfo
+    subst hinfo
+    intro ch hch
+    simp only [SentInfo.chan?, Option.some.injEq] at hch
+    subst hch
+    refine ⟨s, hf, ?_⟩
+    intro id hid
+    simp only [List.mem_map] at hid
+    obtain ⟨x, hx, rfl⟩ := hid
+    obtain ⟨ls, hfx⟩ := hm x hx
+    refine ⟨hi.find_lt hfx, ?_⟩
+    intro u hu
+    rw [hfx] at hu; cases hu; trivial
+  | .reliableSlice _ ch' sl, hp => by
+    obtain ⟨rfl, hidx, m, k, nx, a, ls, hfx, -⟩ := hp
+    refine ⟨rfl, ?_⟩
+    intro info hinfo
+    simp only [Conn.sentInfoOf, Res.ok.injEq] at hinfo
+    subst hinfo
+    intro ch hch
+    simp only [SentInfo.chan?, Option.some.injEq] at hch
+    subst hch
+    refine ⟨s, hf, hi.find_lt hfx, ?_⟩
+    intro u hu
+    rw [hfx] at hu; cases hu; exact hidx
+  | .smallUnreliable .., hp => hp.elim
+  | .unreliableSlice .., hp => hp.elim
+  | .ack .., hp => hp.elim
+
+/-! #### unreliable channels: only sequence numbers matter here -/
+def UP (seq0 : Nat) (pk : List Packet) (seq : Nat) : Prop :=
+  (∀ p ∈ pk, Conn.sentInfoOf p = .ok .none ∧ p.isAck = false ∧ seq0 ≤ p.sequence ∧ p.sequence < seq) ∧ seq0 ≤ seq
+
+theorem UP.append {seq0 : Nat} {pk : List Packet} {seq : Nat} {ps : List Packet} {sq : Nat} (h : UP seq0 pk seq)
+    (hps : ∀ p ∈ ps, Conn.sentInfoOf p = .ok .none ∧ p.isAck = false ∧ seq ≤ p.sequence ∧ p.sequence < sq) (hle : seq ≤ sq) :
+    UP seq0 (pk ++ ps) sq := by
+  refine ⟨?_, Nat.le_trans h.2 hle⟩
+  intro p hp
+  simp only [List.mem_append] at hp
+  rcases hp with hp | hp
+  · obtain ⟨a1, a2, a3, a4⟩ := h.1 p hp
+    exact ⟨a1, a2, a3, by omega⟩
+  · obtain ⟨a1, a2, a3, a4⟩ := hps p hp
+    exact ⟨a1, a2, by have := h.2; omega, a4⟩
+
+theorem unrelSlices_spec (ch id : Nat) (m : Bytes) (n : Nat) : ∀ (l : List Nat) (seq : Nat) (p : Packet),
+    p ∈ unrelSlices ch id m n l seq →
+    Conn.sentInfoOf p = .ok .none ∧ p.isAck = false ∧ seq ≤ p.sequence ∧ p.sequence < seq + l.length
+  | [], _, _, h => by cases h
+  | i :: rest, seq, p, h => by
+    simp only [unrelSlices, List.mem_cons] at h
+    rcases h with rfl | h
+    · exact ⟨rfl, rfl, Nat.le_refl _, by simp [Packet.sequence]⟩
+    · obtain ⟨a1, a2, a3, a4⟩ := unrelSlices_spec ch id m n rest (seq + 1) p h
+      refine ⟨a1, a2, by omega, by simp only [List.length_cons]; omega⟩
+
+theorem unrelLoop_spec (ch seq0 : Nat) : ∀ (l : List Bytes) (g : GPU), UP seq0 g.packets g.seq →
+    UP seq0 (unrelLoop ch l g).packets (unrelLoop ch l g).seq
+  | [], _, h => h
+  | m :: rest, g, h => by
+    rw [unrelLoop]
+    dsimp only
+    split
+    · exact unrelLoop_spec ch seq0 rest _ h
+    · split
+      · apply unrelLoop_spec
+        dsimp only
+        refine h.append ?_ (by omega)
+        intro p hp
+        have := unrelSlices_spec _ _ _ _ _ _ p hp
+        simpa using this
+      · apply unrelLoop_spec
+        dsimp only
+        split
+        · dsimp only
+          refine h.append ?_ (Nat.le_succ _)
+          intro p hp
+          simp only [List.mem_singleton] at hp
+          subst hp
+          exact ⟨rfl, rfl, Nat.le_refl _, by simp [Packet.sequence]⟩
+        · exact h
+
+theorem SendUnrel.getPackets_spec (s : SendUnrel) (seq avail : Nat) :
+    ∀ (s' : SendUnrel) (ps : List Packet) (seq' avail' : Nat), s.getPackets seq avail = (s', ps, seq', avail') →
+      UP seq ps seq' := by
+  intro s' ps seq' avail' hr
+  unfold SendUnrel.getPackets at hr
+  have h0 : UP seq (⟨[], [], 0, seq, avail, s.slicedId, s.mem⟩ : GPU).packets (⟨[], [], 0, seq, avail, s.slicedId, s.mem⟩ : GPU).seq :=
+    ⟨fun p hp => (by cases hp), Nat.le_refl _⟩
+  have h1 := unrelLoop_spec s.ch seq s.queue _ h0
+  generalize unrelLoop s.ch s.queue ⟨[], [], 0, seq, avail, s.slicedId, s.mem⟩ = g at hr h1
+  dsimp only at hr
+  simp only [Prod.mk.injEq] at hr
+  obtain ⟨-, rfl, rfl, -⟩ := hr
+  split
+  · exact h1
+  · dsimp only
+    refine h1.append ?_ (Nat.le_succ _)
+    intro p hp
+    simp only [List.mem_singleton] at hp
+    subst hp
+    exact ⟨rfl, rfl, Nat.le_refl _, by simp [Packet.sequence]⟩
+
+/-! #### the channel loop -/
+def OrderOK (ord : List (Bool × Nat)) (sr : SMap SendRel) (su : SMap SendUnrel) : Prop :=
+  ∀ x ∈ ord, if x.1 = true then (find? sr x.2).isSome = true else (find? su x.2).isSome = true
+
+theorem Conn.chanLoop_spec (now seq0 : Nat) : ∀ (ord : List (Bool × Nat)) (sr : SMap SendRel) (su : SMap SendUnrel)
+    (pk : List Packet) (seq avail : Nat),
+    ChansOK sr → OrderOK ord sr su → seq0 ≤ seq → (∀ p ∈ pk, PInfoOK sr p ∧ seq0 ≤ p.sequence ∧ p.sequence < seq) →
+    ∃ sr' su' pk' seq' avail', Conn.chanLoop now ord (sr, su, pk, seq, avail) = .ok (sr', su', pk', seq', avail') ∧
+      ChansOK sr' ∧ SRGet sr sr' ∧ (∀ ch, (find? su' ch).isSome = (find? su ch).isSome) ∧
+      (∀ p ∈ pk', PInfoOK sr' p ∧ seq0 ≤ p.sequence ∧ p.sequence < seq') ∧ seq ≤ seq'
+  | [], sr, su, pk, seq, avail, hc, _, _, hp =>
+    ⟨sr, su, pk, seq, avail, rfl, hc, SRGet.refl _, fun _ => rfl, hp, Nat.le_refl _⟩
+  | (true, ch) :: rest, sr, su, pk, seq, avail, hc, ho, hlo, hp => by
+    have h0 := ho (true, ch) (by simp)
+    simp only [if_true] at h0
+    cases hf : find? sr ch with
+    | none => rw [hf] at h0; cases h0
+    | some s =>
+      obtain ⟨hinv, hch⟩ := hc ch s hf
+      cases hg : s.getPackets seq avail now with
+      | mk s' r1 =>
+        obtain ⟨ps, seq1, avail1⟩ := r1
+        obtain ⟨g1, g2, g3, g4, g5, g6, g7⟩ := SendRel.getPackets_spec hinv seq avail now s' ps seq1 avail1 hg
+        have hch' : s'.ch = ch := g2.1.trans hch
+        have hget := SRGet.update hf g2 g5 g3
+        have hc1 : ChansOK (SMap.insert sr ch s') := hc.update g1 hch'
+        have ho1 : OrderOK rest (SMap.insert sr ch s') su := by
+          intro x hx
+          have := ho x (List.mem_cons_of_mem _ hx)
+          split
+          · rename_i hb; rw [if_pos hb] at this; rw [hget.1.1]; exact this
+          · rename_i hb; rw [if_neg hb] at this; exact this
+        have hp1 : ∀ p ∈ pk ++ ps, PInfoOK (SMap.insert sr ch s') p ∧ seq0 ≤ p.sequence ∧ p.sequence < seq1 := by
+          intro p hpp
+          simp only [List.mem_append] at hpp
+          rcases hpp with hpp | hpp
+          · obtain ⟨a1, a2, a3⟩ := hp p hpp
+            exact ⟨a1.step hget.1, a2, by omega⟩
+          · obtain ⟨a1, a2, a3⟩ := g7 p hpp
+            refine ⟨PktOK.pinfo (sr := SMap.insert sr ch s') (s := s') ?_ g1 a1, by omega, a3⟩
+            rw [hch']; exact find?_insert_self _ _ _
+        obtain ⟨sr', su', pk', seq', avail', e, r1, r2, r3, r4, r5⟩ :=
+          Conn.chanLoop_spec now seq0 rest (SMap.insert sr ch s') su (pk ++ ps) seq1 avail1 hc1 ho1 (by omega) hp1
+        refine ⟨sr', su', pk', seq', avail', ?_, r1, hget.trans r2, r3, r4, by omega⟩
+        simp only [Conn.chanLoop, hf, hg]
+        exact e
+  | (false, ch) :: rest, sr, su, pk, seq, avail, hc, ho, hlo, hp => by
+    have h0 := ho (false, ch) (by simp)
+    simp only [Bool.false_eq_true, if_false] at h0
+    cases hf : find? su ch with
+    | none => rw [hf] at h0; cases h0
+    | some s =>
+      cases hg : s.getPackets seq avail with
+      | mk s' r1 =>
+        obtain ⟨ps, seq1, avail1⟩ := r1
+        have hup := SendUnrel.getPackets_spec s seq avail s' ps seq1 avail1 hg
+        have hsome : ∀ ch', (find? (SMap.insert su ch s') ch').isSome = (find? su ch').isSome := by
+          intro ch'
+          rw [find?_insert]
+          by_cases c : ch = ch'
+          · rw [if_pos c, ← c, hf]; rfl
+          · rw [if_neg c]
+        have ho1 : OrderOK rest sr (SMap.insert su ch s') := by
+          intro x hx
+          have := ho x (List.mem_cons_of_mem _ hx)
+          split
+          · rename_i hb; rw [if_pos hb] at this; exact this
+          · rename_i hb; rw [if_neg hb] at this; rw [hsome]; exact this
+        have hp1 : ∀ p ∈ pk ++ ps, PInfoOK sr p ∧ seq0 ≤ p.sequence ∧ p.sequence < seq1 := by
+          intro p hpp
+          simp only [List.mem_append] at hpp
+          rcases hpp with hpp | hpp
+          · obtain ⟨a1, a2, a3⟩ := hp p hpp
+            exact ⟨a1, a2, by have := hup.2; omega⟩
+          · obtain ⟨a1, a2, a3, a4⟩ := hup.1 p hpp
+            refine ⟨⟨a2, ?_⟩, by omega, a4⟩
+            intro info hi
+            rw [a1] at hi; cases hi
+            intro ch' hch'; cases hch'
+        obtain ⟨sr', su', pk', seq', avail', e, r1, r2, r3, r4, r5⟩ :=
+          Conn.chanLoop_spec now seq0 rest sr (SMap.insert su ch s') (pk ++ ps) seq1 avail1 hc ho1 (by have := hup.2; omega) hp1
+        refine ⟨sr', su', pk', seq', avail', ?_, r1, r2, fun ch' => (r3 ch').trans (hsome ch'), r4,
+          by have := hup.2; omega⟩
+        simp only [Conn.chanLoop, hf, hg]
+        exact e
+
+theorem Conn.recordSent_spec (now : Nat) : ∀ (pk : List Packet) (m m' : SMap (Nat × SentInfo)),
+    Conn.recordSent now pk m = .ok m' → Sorted m →
+    Sorted m' ∧ ∀ x ∈ m', x ∈ m ∨ ∃ p ∈ pk, x.1 = p.sequence ∧ Conn.sentInfoOf p = .ok x.2.2
+  | [], m, m', h, hs => by
+    simp only [Conn.recordSent, Res.ok.injEq] at h; subst h
+    exact ⟨hs, fun x hx => Or.inl hx⟩
+  | p :: rest, m, m', h, hs => by
+    simp only [Conn.recordSent] at h
+    cases hi : Conn.sentInfoOf p with
+    | err e => exact e.elim
+    | panic s => rw [hi] at h; cases h
+    | ok info =>
+      rw [hi] at h
+      simp only [Res.bind_ok] at h
+      obtain ⟨r1, r2⟩ := Conn.recordSent_spec now rest _ m' h (sorted_insert _ _ hs)
+      refine ⟨r1, ?_⟩
+      intro x hx
+      rcases r2 x hx with hx | ⟨q, hq, hq2⟩
+      · rcases mem_insert hx with rfl | hx
+        · exact Or.inr ⟨p, by simp, rfl, hi⟩
+        · exact Or.inl hx
+      · exact Or.inr ⟨q, List.mem_cons_of_mem _ hq, hq2⟩
+
+theorem Conn.recordSent_ok (now : Nat) : ∀ (pk : List Packet) (m : SMap (Nat × SentInfo)),
+    (∀ p ∈ pk, ∃ info, Conn.sentInfoOf p = .ok info) → ∃ m', Conn.recordSent now pk m = .ok m'
+  | [], m, _ => ⟨m, rfl⟩
+  | p :: rest, m, h => by
+    obtain ⟨info, hi⟩ := h p (by simp)
+    simp only [Conn.recordSent, hi, Res.bind_ok]
+    exact Conn.recordSent_ok now rest _ (fun q hq => h q (List.mem_cons_of_mem _ hq))
+
+/-- entries whose key is not the sequence number of a recorded packet are untouched -/
+theorem Conn.recordSent_keeps (now : Nat) : ∀ (pk : List Packet) (m m' : SMap (Nat × SentInfo)),
+    Conn.recordSent now pk m = .ok m' → ∀ k, (∀ p ∈ pk, p.sequence ≠ k) → find? m' k = find? m k
+  | [], m, m', h, _, _ => by
+    simp only [Conn.recordSent, Res.ok.injEq] at h; subst h; rfl
+  | p :: rest, m, m', h, k, hk => by
+    simp only [Conn.recordSent] at h
+    cases hi : Conn.sentInfoOf p with
+    | err e => exact e.elim
+    | panic s => rw [hi] at h; cases h
+    | ok info =>
+      rw [hi] at h
+      simp only [Res.bind_ok] at h
+      rw [Conn.recordSent_keeps now rest _ m' h k (fun q hq => hk q (List.mem_cons_of_mem _ hq))]
+      exact find?_insert_ne _ _ (hk p (by simp))
+
+/-- the ack packet appended by `get_packets_to_send` can always be recorded when the pending list is well formed -/
+theorem sentInfoOf_ack {seq : Nat} {l : List AckRange} (hw : Acks.WF l) (hne : l ≠ []) :
+    ∃ largest, Conn.sentInfoOf (.ack seq l) = .ok (.ack largest) := by
+  have hpos : ∀ r ∈ l, r.1 < r.2 := by
+    intro r hr
+    induction l with
+    | nil => cases hr
+    | cons a t ih =>
+      rw [Acks.wf_cons_iff] at hw
+      simp only [List.mem_cons] at hr
+      rcases hr with rfl | hr
+      · exact hw.1
+      · cases t with
+        | nil => cases hr
+        | cons b t' => exact ih hw.2.1 (by simp) hr
+  cases hl : l.getLast? with
+  | none => rw [List.getLast?_eq_none_iff] at hl; exact absurd hl hne
+  | some r =>
+    obtain ⟨s, e⟩ := r
+    have := hpos (s, e) (List.mem_of_getLast? hl)
+    simp only at this
+    refine ⟨e - 1, ?_⟩
+    simp only [Conn.sentInfoOf, hl, Res.csub]
+    rw [if_pos (by omega)]
+    rfl
+
+/-- Characterisation of `get_packets_to_send` on a live connection: everything up to serialisation
+    succeeds; the only possible unwinding is inside `serialiseAll` (varint ≥ 2^62: see C16). -/
+theorem Conn.getPacketsToSend_char {c : Conn} (h : c.SendInv) (hw : Acks.WF c.pendingAcks) (hd : c.isDisconnected = false) :
+    ∃ (c1 : Conn) (pk0 : List Packet) (seq0 : Nat),
+      c.getPacketsToSend =
+        (match Conn.serialiseAll (if c.pendingAcks.isEmpty then pk0 else pk0 ++ [Packet.ack seq0 c.pendingAcks]) with
+         | .ok bs => .ok (c1, bs)
+         | .err e => .ok (c1.disconnectWith (.packetSer e), [])
+         | .panic s => .panic s) ∧
+      c1.SendInv ∧ (∀ p ∈ pk0, p.isAck = false) ∧ c1.pendingAcks = c.pendingAcks ∧
+      SRGet c.sendRel c1.sendRel ∧ c.packetSeq ≤ c1.packetSeq ∧ c1.order = c.order ∧
+      c1.recvRel = c.recvRel ∧ c1.recvUnrel = c.recvUnrel ∧ c1.status = c.status ∧
+      -- every new entry of the sent table describes a packet of this very flush, under that packet's number
+      (∀ x ∈ c1.sent, x ∈ c.sent ∨
+        ∃ p ∈ (if c.pendingAcks.isEmpty then pk0 else pk0 ++ [Packet.ack seq0 c.pendingAcks]),
+          x.1 = p.sequence ∧ c.packetSeq ≤ p.sequence ∧ Conn.sentInfoOf p = .ok x.2.2) ∧
+      -- and no older entry is overwritten
+      (∀ k v, find? c.sent k = some v → find? c1.sent k = some v) := by
+  obtain ⟨h1, h2, h3, h4⟩ := h
+  obtain ⟨sr, su, pk0, seq0, avail0, e, r1, r2, r3, r4, r5⟩ :=
+    Conn.chanLoop_spec c.now c.packetSeq c.order c.sendRel c.sendUnrel [] c.packetSeq c.budget h1 h4 (Nat.le_refl _)
+      (fun p hp => by cases hp)
+  -- the final list of packets and sequence number
+  have hinfo : ∀ p ∈ (if c.pendingAcks.isEmpty then pk0 else pk0 ++ [Packet.ack seq0 c.pendingAcks]),
+      ∃ info, Conn.sentInfoOf p = .ok info := by
+    intro p hp
+    split at hp
+    · exact sentInfoOf_of_not_ack (r4 p hp).1.1
+    · rename_i hne
+      simp only [List.mem_append, List.mem_singleton] at hp
+      rcases hp with hp | rfl
+      · exact sentInfoOf_of_not_ack (r4 p hp).1.1
+      · obtain ⟨l, hl⟩ := sentInfoOf_ack (seq := seq0) hw (by intro e0; rw [e0] at hne; exact hne rfl)
+        exact ⟨_, hl⟩
+  obtain ⟨sent, hsent⟩ := Conn.recordSent_ok c.now _ c.sent hinfo
+  obtain ⟨s1, s2⟩ := Conn.recordSent_spec c.now _ c.sent sent hsent h2
+  refine ⟨{ c with sendRel := sr, sendUnrel := su,
+                   packetSeq := if c.pendingAcks.isEmpty then seq0 else seq0 + 1, sent := sent }, pk0, seq0, ?_, ?_,
+    fun p hp => (r4 p hp).1.1, rfl, r2, ?_, rfl, rfl, rfl, rfl, ?_, ?_⟩
+  · unfold Conn.getPacketsToSend
+    rw [hd]
+    simp only [Bool.false_eq_true, if_false, e, Res.bind_ok]
+    cases hE : c.pendingAcks.isEmpty
+    · simp only [hE, Bool.false_eq_true, if_false] at hsent ⊢
+      rw [hsent]
+      simp only [Res.bind_ok]
+      cases Conn.serialiseAll (pk0 ++ [Packet.ack seq0 c.pendingAcks]) <;> rfl
+    · simp only [hE, if_true] at hsent ⊢
+      rw [hsent]
+      simp only [Res.bind_ok]
+      cases Conn.serialiseAll pk0 <;> rfl
+  · refine ⟨r1, s1, ?_, ?_⟩
+    · intro x hx
+      dsimp only
+      rcases s2 x hx with hx | ⟨p, hp, hp1, hp2⟩
+      · obtain ⟨a1, a2⟩ := h3 x hx
+        refine ⟨?_, a2.step r2.1⟩
+        split <;> omega
+      · split at hp
+        · obtain ⟨⟨-, b1⟩, -, b2⟩ := r4 p hp
+          rename_i hem
+          rw [if_pos hem]
+          exact ⟨by omega, b1 _ hp2⟩
+        · rename_i hem
+          rw [if_neg hem]
+          simp only [List.mem_append, List.mem_singleton] at hp
+          rcases hp with hp | rfl
+          · obtain ⟨⟨-, b1⟩, -, b2⟩ := r4 p hp
+            exact ⟨by omega, b1 _ hp2⟩
+          · refine ⟨by rw [hp1]; simp [Packet.sequence], ?_⟩
+            obtain ⟨l, hl⟩ := sentInfoOf_ack (seq := seq0) hw (by intro e0; rw [e0] at hem; exact hem rfl)
+            rw [hl] at hp2
+            simp only [Res.ok.injEq] at hp2
+            rw [← hp2]
+            intro ch hch; cases hch
+    · intro x hx
+      have := h4 x hx
+      dsimp only
+      split
+      · rename_i hb; rw [if_pos hb] at this; rw [r2.1.1]; exact this
+      · rename_i hb; rw [if_neg hb] at this; rw [r3]; exact this
+  · dsimp only
+    split <;> omega
+  · intro x hx
+    rcases s2 x hx with hx | ⟨p, hp, hp1, hp2⟩
+    · exact Or.inl hx
+    · refine Or.inr ⟨p, hp, hp1, ?_, hp2⟩
+      split at hp
+      · exact (r4 p hp).2.1
+      · simp only [List.mem_append, List.mem_singleton] at hp
+        rcases hp with hp | rfl
+        · exact (r4 p hp).2.1
+        · exact r5
+  · intro k v hk
+    have hlt := (h3 _ (find?_some_mem hk)).1
+    dsimp only at hlt ⊢
+    rw [Conn.recordSent_keeps c.now _ c.sent sent hsent k ?_]
+    · exact hk
+    · intro p hp
+      have : c.packetSeq ≤ p.sequence := by
+        split at hp
+        · exact (r4 p hp).2.1
+        · simp only [List.mem_append, List.mem_singleton] at hp
+          rcases hp with hp | rfl
+          · exact (r4 p hp).2.1
+          · exact r5
+      omega
+
+
+
+/-! ### what the decoder guarantees about an ack packet -/
+
+theorem decAckRest_wf : ∀ (n prev : Nat) (b : Bytes) (acc ranges : List AckRange) (rest : Bytes),
+    decAckRest n prev b acc = .ok (ranges, rest) → Acks.WF acc → (∃ r t, acc = r :: t ∧ r.1 = prev) → Acks.WF ranges
+  | 0, _, _, _, _, _, h, hw, _ => by
+    simp only [decAckRest, Except.ok.injEq, Prod.mk.injEq] at h
+    rw [← h.1]; exact hw
+  | n + 1, prev, b, acc, ranges, rest, h, hw, hh => by
+    simp only [decAckRest, bind, Except.bind] at h
+    split at h
+    · cases h
+    · rename_i x hx
+      obtain ⟨gap, b1⟩ := x
+      simp only at h
+      split at h
+      · cases h
+      · rename_i hgap
+        split at h
+        · cases h
+        · rename_i y hy
+          obtain ⟨size, b2⟩ := y
+          simp only at h
+          split at h
+          · cases h
+          · rename_i hsize
+            refine decAckRest_wf n _ b2 _ ranges rest h ?_ ⟨_, _, rfl, rfl⟩
+            obtain ⟨r, t, rfl, hr⟩ := hh
+            rw [Acks.wf_cons_iff]
+            refine ⟨by dsimp only; omega, hw, ?_⟩
+            intro r2 hr2
+            simp only [List.head?_cons, Option.some.injEq] at hr2
+            subst hr2
+            dsimp only; omega
+
+theorem decode_ack_wf {b : Bytes} {seq : Nat} {ranges : List AckRange} {rest : Bytes}
+    (h : Packet.decode b = .ok (.ack seq ranges, rest)) : Acks.WF ranges := by
+  unfold Packet.decode at h
+  simp only [bind, Except.bind] at h
+  split at h
+  · cases h
+  · rename_i x hx
+    obtain ⟨ty, b0⟩ := x
+    simp only at h
+    split at h
+    iterate 4
+      · repeat' (first | (cases h; done) | split at h)
+        all_goals (simp only [pure, Except.pure, Except.ok.injEq, Prod.mk.injEq] at h; exact absurd h.1 (by simp))
+    · repeat' (first | (cases h; done) | split at h)
+      rename_i hlt _ v hdec
+      simp only [pure, Except.pure, Except.ok.injEq, Prod.mk.injEq, Packet.ack.injEq] at h
+      obtain ⟨⟨-, rfl⟩, -⟩ := h
+      exact decAckRest_wf _ _ _ _ v.1 v.2 hdec (by simp only [Acks.WF]; omega) ⟨_, _, rfl, rfl⟩
+    · cases h
+
+theorem fromBytes_ack_wf {b : Bytes} {seq : Nat} {ranges : List AckRange}
+    (h : Packet.fromBytes b = .ok (.ack seq ranges)) : Acks.WF ranges := by
+  unfold Packet.fromBytes at h
+  split at h
+  · rename_i p rest hd
+    simp only [Except.ok.injEq] at h
+    subst h
+    exact decode_ack_wf hd
+  · cases h
+
+/-! ### which sequence numbers an ack packet acknowledges -/
+
+theorem Acks.wf_pos : ∀ {l : List AckRange}, Acks.WF l → ∀ r ∈ l, r.1 < r.2
+  | [], _, _, hr => by cases hr
+  | a :: t, hw, r, hr => by
+    rw [Acks.wf_cons_iff] at hw
+    simp only [List.mem_cons] at hr
+    rcases hr with rfl | hr
+    · exact hw.1
+    · exact Acks.wf_pos hw.2.1 r hr
+
+theorem Acks.wf_above : ∀ {l : List AckRange} {r : AckRange}, Acks.WF (r :: l) → ∀ x, Acks.Mem x l → r.2 < x
+  | [], _, _, _, hx => by cases hx
+  | r2 :: t, r, hw, x, hx => by
+    rw [Acks.wf_cons_iff] at hw
+    have h1 := hw.2.2 r2 rfl
+    simp only [Acks.mem_cons] at hx
+    rcases hx with hx | hx
+    · omega
+    · have := Acks.wf_above hw.2.1 x hx
+      have h3 := Acks.wf_pos hw.2.1 r2 (by simp)
+      omega
+
+theorem Acks.mem_iff_exists {x : Nat} : ∀ {l : List AckRange}, Acks.Mem x l ↔ ∃ r ∈ l, r.1 ≤ x ∧ x < r.2
+  | [] => by simp
+  | a :: t => by
+    simp only [Acks.mem_cons, List.mem_cons, Acks.mem_iff_exists (l := t)]
+    constructor
+    · rintro (h | ⟨r, hr, h⟩)
+      · exact ⟨a, Or.inl rfl, h⟩
+      · exact ⟨r, Or.inr hr, h⟩
+    · rintro ⟨r, rfl | hr, h⟩
+      · exact Or.inl h
+      · exact Or.inr ⟨r, hr, h⟩
+
+theorem keys_filter_spec {α : Type} (p : Nat × α → Bool) {m : SMap α} (hs : Sorted m) :
+    ((m.filter p).map (·.1)).Nodup ∧ ∀ x ∈ (m.filter p).map (·.1), ∃ v, find? m x = some v ∧ p (x, v) = true := by
+  refine ⟨?_, ?_⟩
+  · unfold List.Nodup
+    rw [List.pairwise_map]
+    exact (List.Pairwise.filter p hs).imp (fun h => Nat.ne_of_lt h)
+  · intro x hx
+    simp only [List.mem_map, List.mem_filter] at hx
+    obtain ⟨⟨k, v⟩, ⟨hm, hp⟩, rfl⟩ := hx
+    exact ⟨v, mem_find?_of_sorted hs hm, hp⟩
+
+theorem Conn.newAcks_spec {sent : SMap (Nat × SentInfo)} (hs : Sorted sent) : ∀ (ranges : List AckRange), Acks.WF ranges →
+    ∃ L, Conn.newAcks sent ranges = .ok L ∧ L.Nodup ∧ ∀ x ∈ L, (∃ v, find? sent x = some v) ∧ Acks.Mem x ranges
+  | [], _ => ⟨[], rfl, List.nodup_nil, fun _ hx => by cases hx⟩
+  | (s, e) :: rest, hw => by
+    have hpos := Acks.wf_pos hw (s, e) (by simp)
+    simp only at hpos
+    obtain ⟨L, hL, hnd, hmem⟩ := Conn.newAcks_spec hs rest (Acks.wf_tail hw)
+    obtain ⟨k1, k2⟩ := keys_filter_spec (fun (x : Nat × Nat × SentInfo) => decide (s ≤ x.1 ∧ x.1 < e)) hs
+    refine ⟨(sent.filter (fun (x : Nat × Nat × SentInfo) => decide (s ≤ x.1 ∧ x.1 < e))).map (·.1) ++ L, ?_, ?_, ?_⟩
+    · simp only [Conn.newAcks]
+      rw [if_neg (by omega), hL]
+      rfl
+    · rw [List.nodup_append]
+      refine ⟨k1, hnd, ?_⟩
+      intro a ha b hb hab
+      subst hab
+      obtain ⟨v, -, hp⟩ := k2 a ha
+      simp only [decide_eq_true_eq] at hp
+      have := Acks.wf_above hw a (hmem a hb).2
+      simp only at this
+      omega
+    · intro x hx
+      simp only [List.mem_append] at hx
+      rcases hx with hx | hx
+      · obtain ⟨v, hv, hp⟩ := k2 x hx
+        simp only [decide_eq_true_eq] at hp
+        exact ⟨⟨v, hv⟩, Or.inl hp⟩
+      · exact ⟨(hmem x hx).1, Or.inr (hmem x hx).2⟩
+
+/-! ### processing acknowledgements -/
+
+/-- accumulated effect of acknowledging the messages `ids` on one channel -/
+structure _root_.RenetVerif.SendRel.AckSteps (s s' : SendRel) (ids : List Nat) : Prop where
+  others : ∀ id', id' ∉ ids → find? s'.unacked id' = find? s.unacked id'
+  memLe : s'.mem ≤ s.mem
+  memLt : s'.mem < s.mem → ∃ id, find? s.unacked id ≠ none ∧ find? s'.unacked id = none
+  gone : ∀ id', find? s.unacked id' = none → find? s'.unacked id' = none
+  pend : ∀ id i, s.Pending id i → s'.Pending id i
+
+theorem Conn.ackMsgLoop_spec {ch : Nat} : ∀ (ids : List Nat) {s : SendRel}, s.Inv → s.InfoOK (.relMsgs ch ids) →
+    ∃ s', Conn.ackMsgLoop s ids = .ok s' ∧ s'.Inv ∧ s.Step s' ∧ s.AckSteps s' ids
+  | [], s, hi, _ =>
+    ⟨s, rfl, hi, SendRel.Step.refl _, ⟨fun _ _ => rfl, Nat.le_refl _, fun h => absurd h (Nat.lt_irrefl _), fun _ h => h,
+      fun _ _ h => h⟩⟩
+  | id :: rest, s, hi, hok => by
+    have hk : ∀ u, find? s.unacked id = some u → u.IsSmall := (hok id (by simp)).2
+    obtain ⟨s1, e1, i1, st1, -⟩ := SendRel.processMessageAck_spec hi id hk
+    obtain ⟨a1, p1⟩ := SendRel.processMessageAck_step hi hk e1
+    have hok1 : s1.InfoOK (.relMsgs ch rest) :=
+      SendRel.InfoOK.step st1 (i := .relMsgs ch rest) (fun id' h' => hok id' (List.mem_cons_of_mem _ h'))
+    obtain ⟨s', e2, i2, st2, a2⟩ := Conn.ackMsgLoop_spec rest i1 hok1
+    refine ⟨s', ?_, i2, st1.trans st2, ⟨?_, Nat.le_trans a2.memLe a1.memLe, ?_, fun id' h => a2.gone id' (a1.gone id' h),
+      fun id' i h => a2.pend id' i (p1 id' i h)⟩⟩
+    · simp only [Conn.ackMsgLoop, e1, Res.bind_ok]; exact e2
+    · intro id' hn
+      simp only [List.mem_cons, not_or] at hn
+      rw [a2.others id' hn.2, a1.others id' hn.1]
+    · intro hlt
+      by_cases c : s1.mem < s.mem
+      · obtain ⟨⟨u, hu⟩, hn⟩ := a1.memLt c
+        exact ⟨id, by rw [hu]; simp, a2.gone id hn⟩
+      · obtain ⟨id2, h1, h2⟩ := a2.memLt (by omega)
+        refine ⟨id2, ?_, h2⟩
+        intro hnone
+        exact h1 (a1.gone id2 hnone)
+
+/-- the recorded packet `info` carried message `id` of channel `ch` (whole, or one of its slices) -/
+def _root_.RenetVerif.SentInfo.Names (info : SentInfo) (ch id : Nat) : Prop :=
+  (∃ ids, info = .relMsgs ch ids ∧ id ∈ ids) ∨ ∃ idx, info = .relSlice ch id idx
+
+/-- effect on channel `ch` of acknowledging the packets `L`, all recorded in `S` -/
+structure ChanEff (S : SMap (Nat × SentInfo)) (L : List Nat) (ch : Nat) (s s' : SendRel) : Prop where
+  gone : ∀ id, find? s.unacked id = none → find? s'.unacked id = none
+  just : ∀ id, find? s.unacked id ≠ none → find? s'.unacked id = none →
+    ∃ seq ∈ L, ∃ t info, find? S seq = some (t, info) ∧ info.Names ch id
+  memLe : s'.mem ≤ s.mem
+  maxMem : s'.maxMem = s.maxMem
+  memLt : s'.mem < s.mem → ∃ id, find? s.unacked id ≠ none ∧ find? s'.unacked id = none
+  pend : ∀ id i, s.Pending id i → s'.Pending id i ∨ ∃ seq ∈ L, ∃ t, find? S seq = some (t, .relSlice ch id i)
+
+theorem ChanEff.refl (S : SMap (Nat × SentInfo)) (L : List Nat) (ch : Nat) (s : SendRel) : ChanEff S L ch s s :=
+  ⟨fun _ h => h, fun _ h1 h2 => absurd h2 h1, Nat.le_refl _, rfl, fun h => absurd h (Nat.lt_irrefl _), fun _ _ h => Or.inl h⟩
+
+theorem ChanEff.trans {S S' : SMap (Nat × SentInfo)} {L1 L2 : List Nat} {ch : Nat} {a b c : SendRel}
+    (hS : ∀ k v, find? S' k = some v → find? S k = some v)
+    (h1 : ChanEff S L1 ch a b) (h2 : ChanEff S' L2 ch b c) : ChanEff S (L1 ++ L2) ch a c := by
+  refine ⟨fun id h => h2.gone id (h1.gone id h), ?_, Nat.le_trans h2.memLe h1.memLe, h2.maxMem.trans h1.maxMem, ?_, ?_⟩
+  · intro id hin hout
+    by_cases c1 : find? b.unacked id = none
+    · obtain ⟨seq, hs, t, info, hf, hn⟩ := h1.just id hin c1
+      exact ⟨seq, List.mem_append_left _ hs, t, info, hf, hn⟩
+    · obtain ⟨seq, hs, t, info, hf, hn⟩ := h2.just id c1 hout
+      exact ⟨seq, List.mem_append_right _ hs, t, info, hS _ _ hf, hn⟩
+  · intro hlt
+    by_cases c1 : b.mem < a.mem
+    · obtain ⟨id, i1, i2⟩ := h1.memLt c1
+      exact ⟨id, i1, h2.gone id i2⟩
+    · obtain ⟨id, i1, i2⟩ := h2.memLt (by omega)
+      exact ⟨id, fun hn => i1 (h1.gone id hn), i2⟩
+  · intro id i hp
+    rcases h1.pend id i hp with hp1 | ⟨seq, hs, t, hf⟩
+    · rcases h2.pend id i hp1 with hp2 | ⟨seq, hs, t, hf⟩
+      · exact Or.inl hp2
+      · exact Or.inr ⟨seq, List.mem_append_right _ hs, t, hS _ _ hf⟩
+    · exact Or.inr ⟨seq, List.mem_append_left _ hs, t, hf⟩
+
+/-- effect of the ack branch on the whole connection -/
+structure ConnEff (S : SMap (Nat × SentInfo)) (L : List Nat) (c c' : Conn) : Prop where
+  chan : ∀ ch s, find? c.sendRel ch = some s → ∃ s', find? c'.sendRel ch = some s' ∧ ChanEff S L ch s s'
+  nochan : ∀ ch, find? c.sendRel ch = none → find? c'.sendRel ch = none
+  acksWF : Acks.WF c.pendingAcks → Acks.WF c'.pendingAcks
+  acksSub : ∀ x, Acks.Mem x c'.pendingAcks → Acks.Mem x c.pendingAcks
+  frame : c'.recvRel = c.recvRel ∧ c'.recvUnrel = c.recvUnrel ∧ c'.status = c.status ∧ c'.now = c.now ∧
+    c'.budget = c.budget ∧ c'.packetSeq = c.packetSeq ∧ c'.order = c.order ∧ c'.sendUnrel = c.sendUnrel
+
+theorem ConnEff.refl (S : SMap (Nat × SentInfo)) (L : List Nat) (c : Conn) : ConnEff S L c c :=
+  ⟨fun _ s h => ⟨s, h, ChanEff.refl _ _ _ _⟩, fun _ h => h, fun h => h, fun _ h => h, rfl, rfl, rfl, rfl, rfl, rfl, rfl, rfl⟩
+
+theorem ConnEff.trans {S S' : SMap (Nat × SentInfo)} {L1 L2 : List Nat} {a b c : Conn}
+    (hS : ∀ k v, find? S' k = some v → find? S k = some v)
+    (h1 : ConnEff S L1 a b) (h2 : ConnEff S' L2 b c) : ConnEff S (L1 ++ L2) a c := by
+  refine ⟨?_, fun ch h => h2.nochan ch (h1.nochan ch h), fun h => h2.acksWF (h1.acksWF h),
+    fun x h => h1.acksSub x (h2.acksSub x h), ?_⟩
+  · intro ch s hs
+    obtain ⟨s1, hs1, e1⟩ := h1.chan ch s hs
+    obtain ⟨s2, hs2, e2⟩ := h2.chan ch s1 hs1
+    exact ⟨s2, hs2, e1.trans hS e2⟩
+  · obtain ⟨a1, a2, a3, a4, a5, a6, a7, a8⟩ := h1.frame
+    obtain ⟨b1, b2, b3, b4, b5, b6, b7, b8⟩ := h2.frame
+    exact ⟨b1.trans a1, b2.trans a2, b3.trans a3, b4.trans a4, b5.trans a5, b6.trans a6, b7.trans a7, b8.trans a8⟩
+
+/-- updating one channel: effect on the connection from the effect on that channel -/
+theorem ConnEff.ofChan {S : SMap (Nat × SentInfo)} {L : List Nat} {c : Conn} {sent' : SMap (Nat × SentInfo)} {ch : Nat}
+    {s s' : SendRel} (hf : find? c.sendRel ch = some s) (he : ChanEff S L ch s s') :
+    ConnEff S L c { c with sent := sent', sendRel := SMap.insert c.sendRel ch s' } := by
+  refine ⟨?_, ?_, fun h => h, fun _ h => h, rfl, rfl, rfl, rfl, rfl, rfl, rfl, rfl⟩
+  · intro ch' s0 h0
+    dsimp only
+    rw [find?_insert]
+    by_cases cc : ch = ch'
+    · subst cc; rw [hf] at h0; cases h0; rw [if_pos rfl]; exact ⟨s', rfl, he⟩
+    · rw [if_neg cc]; exact ⟨s0, h0, ChanEff.refl _ _ _ _⟩
+  · intro ch' h0
+    dsimp only
+    rw [find?_insert]
+    by_cases cc : ch = ch'
+    · subst cc; rw [hf] at h0; cases h0
+    · rw [if_neg cc]; exact h0
+
+theorem _root_.RenetVerif.Conn.SendInv.eraseSent {c : Conn} (h : c.SendInv) (seq : Nat) : ({ c with sent := erase c.sent seq } : Conn).SendInv :=
+  ⟨h.chans, sorted_erase _ h.sentSorted, fun x hx => h.sentOK x (mem_erase hx), h.order⟩
+
+/-- **one acknowledged packet**: under the invariant `ackOne` never panics on a recorded sequence number -/
+theorem Conn.ackOne_spec {c : Conn} (h : c.SendInv) {seq : Nat} (hin : ∃ v, find? c.sent seq = some v) :
+    ∃ c', Conn.ackOne c seq = .ok c' ∧ c'.SendInv ∧ c'.sent = erase c.sent seq ∧ ConnEff c.sent [seq] c c' := by
+  obtain ⟨⟨t, info⟩, hv⟩ := hin
+  have hinfo := (h.sentOK _ (find?_some_mem hv)).2
+  simp only at hinfo
+  have h1 := h.eraseSent seq
+  unfold Conn.ackOne
+  rw [hv]
+  simp only
+  cases info with
+  | none =>
+    exact ⟨_, rfl, h1, rfl, ⟨fun ch s hs => ⟨s, hs, ChanEff.refl _ _ _ _⟩, fun _ h => h, fun h => h, fun _ h => h,
+      rfl, rfl, rfl, rfl, rfl, rfl, rfl, rfl⟩⟩
+  | ack largest =>
+    exact ⟨_, rfl, h1.same ⟨rfl, rfl, rfl, rfl, rfl⟩, rfl, ⟨fun ch s hs => ⟨s, hs, ChanEff.refl _ _ _ _⟩, fun _ h => h,
+      fun hw => Acks.ackedLargest_wf _ _ hw, fun x hx => Acks.ackedLargest_mem_sub _ _ x hx,
+      rfl, rfl, rfl, rfl, rfl, rfl, rfl, rfl⟩⟩
+  | relMsgs ch ids =>
+    obtain ⟨s, hf, hok⟩ := hinfo ch rfl
+    simp only [hf]
+    obtain ⟨hinv, hch⟩ := h.chans ch s hf
+    obtain ⟨s', e, i1, st, as⟩ := Conn.ackMsgLoop_spec ids hinv hok
+    rw [e]
+    refine ⟨_, rfl, h1.updateChan hf i1 st, rfl, ConnEff.ofChan hf ⟨as.gone, ?_, as.memLe, st.2.1, as.memLt, fun id i hp => Or.inl (as.pend id i hp)⟩⟩
+    intro id hin hout
+    refine ⟨seq, by simp, t, _, hv, Or.inl ⟨ids, rfl, ?_⟩⟩
+    apply Classical.byContradiction
+    intro hni
+    rw [as.others id hni] at hout
+    exact hin hout
+  | relSlice ch id idx =>
+    obtain ⟨s, hf, hok⟩ := hinfo ch rfl
+    simp only [hf]
+    obtain ⟨hinv, hch⟩ := h.chans ch s hf
+    obtain ⟨s', e, i1, st, -⟩ := SendRel.processSliceAck_spec hinv id idx hok.2
+    obtain ⟨as, pe⟩ := SendRel.processSliceAck_step hinv hok.2 e
+    rw [e]
+    refine ⟨_, rfl, h1.updateChan hf i1 st, rfl, ConnEff.ofChan hf ⟨as.gone, ?_, as.memLe, st.2.1, ?_, ?_⟩⟩
+    · intro id' hin hout
+      refine ⟨seq, by simp, t, _, hv, Or.inr ⟨idx, ?_⟩⟩
+      by_cases cc : id' = id
+      · rw [cc]
+      · rw [as.others id' cc] at hout; exact absurd hout hin
+    · intro hlt
+      obtain ⟨⟨u, hu⟩, hn⟩ := as.memLt hlt
+      exact ⟨id, by rw [hu]; simp, hn⟩
+    · intro id' i hp
+      rcases pe id' i hp with ⟨rfl, rfl⟩ | hp'
+      · exact Or.inr ⟨seq, by simp, t, hv⟩
+      · exact Or.inl hp'
+
+/-- **the whole ack loop** never panics when the list has no duplicates and names recorded packets -/
+theorem Conn.ackLoop_spec : ∀ (L : List Nat) {c : Conn}, c.SendInv → L.Nodup → (∀ x ∈ L, ∃ v, find? c.sent x = some v) →
+    ∃ c', Conn.ackLoop c L = .ok c' ∧ c'.SendInv ∧ ConnEff c.sent L c c' ∧
+      (∀ k v, find? c'.sent k = some v → find? c.sent k = some v)
+  | [], c, h, _, _ => ⟨c, rfl, h, ConnEff.refl _ _ _, fun _ _ h => h⟩
+  | seq :: rest, c, h, hnd, hin => by
+    obtain ⟨c1, e1, i1, hs1, eff1⟩ := Conn.ackOne_spec h (hin seq (by simp))
+    rw [List.nodup_cons] at hnd
+    have hmono : ∀ k v, find? c1.sent k = some v → find? c.sent k = some v := by
+      intro k v hk
+      rw [hs1] at hk
+      exact (find?_erase_some h.sentSorted hk).2
+    have hin1 : ∀ x ∈ rest, ∃ v, find? c1.sent x = some v := by
+      intro x hx
+      obtain ⟨v, hv⟩ := hin x (List.mem_cons_of_mem _ hx)
+      refine ⟨v, ?_⟩
+      rw [hs1, find?_erase_ne _ (by intro e; subst e; exact hnd.1 hx)]
+      exact hv
+    obtain ⟨c', e2, i2, eff2, m2⟩ := Conn.ackLoop_spec rest i1 hnd.2 hin1
+    refine ⟨c', ?_, i2, eff1.trans hmono eff2, fun k v hk => hmono k v (m2 k v hk)⟩
+    simp only [Conn.ackLoop, e1, Res.bind_ok]; exact e2
+
+
+
+/-! ### process_packet -/
+
+theorem Conn.same_dw {c c2 : Conn} {X : List AckRange} (r : Reason) (h1 : c.SendSame c2) (h2 : c2.pendingAcks = X) :
+    c.SendSame (c2.disconnectWith r) ∧ (c2.disconnectWith r).pendingAcks = X := by
+  obtain ⟨a, b, -, -⟩ := c2.disconnectWith_same r
+  exact ⟨h1.trans a, b.trans h2⟩
+
+/-- the three ways `process_packet` can return normally -/
+theorem Conn.processPacket_cases {c c' : Conn} {bytes : Bytes} (hr : c.processPacket bytes = .ok c') :
+    (c.SendSame c' ∧ c'.pendingAcks = c.pendingAcks ∧ (c.isDisconnected = true ∨ ∃ e, Packet.fromBytes bytes = .error e)) ∨
+    (∃ p, Packet.fromBytes bytes = .ok p ∧ p.isAck = false ∧ c.SendSame c' ∧
+      c'.pendingAcks = Acks.add ACK_RANGE_CAP p.sequence c.pendingAcks) ∨
+    (∃ aseq ranges L, c.isDisconnected = false ∧ Packet.fromBytes bytes = .ok (.ack aseq ranges) ∧
+      Conn.newAcks c.sent ranges = .ok L ∧
+      Conn.ackLoop { c with pendingAcks := Acks.add ACK_RANGE_CAP aseq c.pendingAcks } L = .ok c') := by
+  unfold Conn.processPacket at hr
+  split at hr
+  · cases hr; exact Or.inl ⟨Conn.SendSame.refl _, rfl, Or.inl ‹_›⟩
+  · rename_i hdis
+    split at hr
+    · rename_i e he
+      cases hr
+      obtain ⟨a, b, -, -⟩ := c.disconnectWith_same (.packetDeser e)
+      exact Or.inl ⟨a, b, Or.inr ⟨e, he⟩⟩
+    · rename_i p hp
+      dsimp only at hr
+      have base : c.SendSame { c with pendingAcks := Acks.add ACK_RANGE_CAP p.sequence c.pendingAcks } := ⟨rfl, rfl, rfl, rfl, rfl⟩
+      split at hr
+      iterate 4
+        · refine Or.inr (Or.inl ⟨_, hp, rfl, ?_⟩)
+          repeat' (first | (cases hr; done) | split at hr)
+          all_goals (simp only [Res.ok.injEq] at hr; subst hr)
+          all_goals first
+            | exact ⟨⟨rfl, rfl, rfl, rfl, rfl⟩, rfl⟩
+            | exact Conn.same_dw _ ⟨rfl, rfl, rfl, rfl, rfl⟩ rfl
+      · rename_i aseq ranges
+        refine Or.inr (Or.inr ⟨aseq, ranges, ?_⟩)
+        cases hn : Conn.newAcks c.sent ranges with
+        | ok L =>
+          rw [hn] at hr
+          simp only [Res.bind_ok] at hr
+          exact ⟨L, by simpa using hdis, hp, rfl, hr⟩
+        | err e => exact e.elim
+        | panic s => rw [hn] at hr; cases hr
+
+theorem Conn.processPacket_ack_eq {c : Conn} {bytes : Bytes} {aseq : Nat} {ranges : List AckRange}
+    (hd : c.isDisconnected = false) (hp : Packet.fromBytes bytes = .ok (.ack aseq ranges)) :
+    c.processPacket bytes =
+      (Conn.newAcks c.sent ranges >>= fun L =>
+        Conn.ackLoop { c with pendingAcks := Acks.add ACK_RANGE_CAP aseq c.pendingAcks } L) := by
+  unfold Conn.processPacket
+  rw [hd, hp]
+  rfl
+
+/-- **the ack branch never panics** and re-establishes the invariant, for any ack packet the decoder accepts -/
+theorem Conn.processPacket_ack_spec {c : Conn} {bytes : Bytes} {aseq : Nat} {ranges : List AckRange} (h : c.SendInv)
+    (hd : c.isDisconnected = false) (hp : Packet.fromBytes bytes = .ok (.ack aseq ranges)) :
+    ∃ L c', Conn.newAcks c.sent ranges = .ok L ∧ c.processPacket bytes = .ok c' ∧ c'.SendInv ∧
+      ConnEff c.sent L { c with pendingAcks := Acks.add ACK_RANGE_CAP aseq c.pendingAcks } c' ∧
+      (∀ x ∈ L, (∃ v, find? c.sent x = some v) ∧ Acks.Mem x ranges) ∧
+      (∀ k v, find? c'.sent k = some v → find? c.sent k = some v) := by
+  have hw := fromBytes_ack_wf hp
+  obtain ⟨L, hL, hnd, hmem⟩ := Conn.newAcks_spec h.sentSorted ranges hw
+  have h1 : ({ c with pendingAcks := Acks.add ACK_RANGE_CAP aseq c.pendingAcks } : Conn).SendInv :=
+    h.same ⟨rfl, rfl, rfl, rfl, rfl⟩
+  obtain ⟨c', e, i, eff, mono⟩ := Conn.ackLoop_spec L h1 hnd (fun x hx => (hmem x hx).1)
+  refine ⟨L, c', hL, ?_, i, eff, hmem, mono⟩
+  rw [Conn.processPacket_ack_eq hd hp, hL]
+  exact e
+
+/-- `SendInv` is preserved by `process_packet` for every byte string -/
+theorem Conn.processPacket_inv {c c' : Conn} {bytes : Bytes} (h : c.SendInv) (hr : c.processPacket bytes = .ok c') :
+    c'.SendInv := by
+  rcases Conn.processPacket_cases hr with ⟨hs, -, -⟩ | ⟨p, -, -, hs, -⟩ | ⟨aseq, ranges, L, hd, hp, -, -⟩
+  · exact h.same hs
+  · exact h.same hs
+  · obtain ⟨L', c2, -, e, i, -⟩ := Conn.processPacket_ack_spec h hd hp
+    rw [e] at hr; cases hr; exact i
+
+/-- receive-side sub-steps of `process_packet` (proved panic-free in Lemmas/RecvInv under the receive invariants) -/
+def RecvNoPanic (c : Conn) : Packet → Prop
+  | .smallReliable _ ch msgs => ∀ r, find? c.recvRel ch = some r → ∀ s, Conn.relMsgLoop r msgs ≠ .panic s
+  | .reliableSlice _ ch sl => ∀ r, find? c.recvRel ch = some r → ∀ s, r.processSlice sl ≠ .panic s
+  | .unreliableSlice _ ch sl => ∀ r, find? c.recvUnrel ch = some r → ∀ s, r.processSlice sl c.now ≠ .panic s
+  | _ => True
+
+/-- composition: if the receive-side sub-steps do not panic then `process_packet` does not panic -/
+theorem Conn.processPacket_no_panic {c : Conn} {bytes : Bytes} (h : c.SendInv)
+    (hrecv : ∀ p, Packet.fromBytes bytes = .ok p → RecvNoPanic c p) : ∃ c', c.processPacket bytes = .ok c' := by
+  cases hd : c.isDisconnected with
+  | true => exact ⟨c, by unfold Conn.processPacket; rw [hd]; rfl⟩
+  | false =>
+    cases hp : Packet.fromBytes bytes with
+    | error e => exact ⟨_, by unfold Conn.processPacket; rw [hd, hp]; rfl⟩
+    | ok p =>
+      have hr := hrecv p hp
+      cases p with
+      | ack aseq ranges =>
+        obtain ⟨L, c', -, e, -⟩ := Conn.processPacket_ack_spec h hd hp
+        exact ⟨c', e⟩
+      | smallReliable seq ch msgs =>
+        unfold Conn.processPacket; rw [hd, hp]
+        simp only [Bool.false_eq_true, if_false]
+        cases hf : find? c.recvRel ch with
+        | none => exact ⟨_, rfl⟩
+        | some r =>
+          simp only
+          cases hl : Conn.relMsgLoop r msgs with
+          | ok r' => exact ⟨_, rfl⟩
+          | err e => exact ⟨_, rfl⟩
+          | panic s => exact absurd hl (hr r hf s)
+      | smallUnreliable seq ch msgs =>
+        unfold Conn.processPacket; rw [hd, hp]
+        simp only [Bool.false_eq_true, if_false]
+        cases hf : find? c.recvUnrel ch with
+        | none => exact ⟨_, rfl⟩
+        | some r => exact ⟨_, rfl⟩
+      | reliableSlice seq ch sl =>
+        unfold Conn.processPacket; rw [hd, hp]
+        simp only [Bool.false_eq_true, if_false]
+        cases hf : find? c.recvRel ch with
+        | none => exact ⟨_, rfl⟩
+        | some r =>
+          simp only
+          cases hl : r.processSlice sl with
+          | ok r' => exact ⟨_, rfl⟩
+          | err e => exact ⟨_, rfl⟩
+          | panic s => exact absurd hl (hr r hf s)
+      | unreliableSlice seq ch sl =>
+        unfold Conn.processPacket; rw [hd, hp]
+        simp only [Bool.false_eq_true, if_false]
+        cases hf : find? c.recvUnrel ch with
+        | none => exact ⟨_, rfl⟩
+        | some r =>
+          simp only
+          cases hl : r.processSlice sl c.now with
+          | ok r' => exact ⟨_, rfl⟩
+          | err e => exact ⟨_, rfl⟩
+          | panic s => exact absurd hl (hr r hf s)
+
+/-- hostile ack packets / undecodable datagrams never panic -/
+theorem Conn.processPacket_no_panic_ack {c : Conn} {bytes : Bytes} (h : c.SendInv)
+    (hk : (∃ e, Packet.fromBytes bytes = .error e) ∨ ∃ aseq ranges, Packet.fromBytes bytes = .ok (.ack aseq ranges)) :
+    ∃ c', c.processPacket bytes = .ok c' := by
+  apply Conn.processPacket_no_panic h
+  intro p hp
+  rcases hk with ⟨e, he⟩ | ⟨aseq, ranges, ha⟩
+  · rw [he] at hp; cases hp
+  · rw [ha] at hp; cases hp; trivial
+
+/-- per-channel effect of any successful `process_packet` -/
+theorem Conn.processPacket_eff {c c' : Conn} {bytes : Bytes} (h : c.SendInv) (hr : c.processPacket bytes = .ok c') :
+    (c'.sendRel = c.sendRel) ∨
+    ∃ aseq ranges L, Packet.fromBytes bytes = .ok (.ack aseq ranges) ∧
+      (∀ x ∈ L, Acks.Mem x ranges) ∧
+      ∀ ch s, find? c.sendRel ch = some s → ∃ s', find? c'.sendRel ch = some s' ∧ ChanEff c.sent L ch s s' := by
+  rcases Conn.processPacket_cases hr with ⟨hs, -, -⟩ | ⟨p, -, -, hs, -⟩ | ⟨aseq, ranges, L, hd, hp, -, -⟩
+  · exact Or.inl hs.1
+  · exact Or.inl hs.1
+  · obtain ⟨L', c2, -, e, -, eff, hmem, -⟩ := Conn.processPacket_ack_spec h hd hp
+    rw [e] at hr; cases hr
+    exact Or.inr ⟨aseq, ranges, L', hp, fun x hx => (hmem x hx).2, fun ch s hs => eff.chan ch s hs⟩
+
+/-- pending acks after `process_packet`: a subset of the old ones plus the sequence number just parsed -/
+theorem Conn.processPacket_acks {c c' : Conn} {bytes : Bytes} (h : c.SendInv) (hw : Acks.WF c.pendingAcks)
+    (hr : c.processPacket bytes = .ok c') :
+    Acks.WF c'.pendingAcks ∧
+    ∀ x, Acks.Mem x c'.pendingAcks → Acks.Mem x c.pendingAcks ∨ ∃ p, Packet.fromBytes bytes = .ok p ∧ x = p.sequence := by
+  rcases Conn.processPacket_cases hr with ⟨-, hs, -⟩ | ⟨p, hp, -, -, hs⟩ | ⟨aseq, ranges, L, hd, hp, -, -⟩
+  · rw [hs]; exact ⟨hw, fun x hx => Or.inl hx⟩
+  · rw [hs]
+    refine ⟨Acks.add_wf _ _ _ hw, fun x hx => ?_⟩
+    rcases Acks.add_mem_sub _ _ _ hw x hx with h1 | h1
+    · exact Or.inl h1
+    · exact Or.inr ⟨p, hp, h1⟩
+  · obtain ⟨L', c2, -, e, -, eff, -, -⟩ := Conn.processPacket_ack_spec h hd hp
+    rw [e] at hr; cases hr
+    refine ⟨eff.acksWF (Acks.add_wf _ _ _ hw), fun x hx => ?_⟩
+    have := eff.acksSub x hx
+    dsimp only at this
+    rcases Acks.add_mem_sub _ _ _ hw x this with h1 | h1
+    · exact Or.inl h1
+    · exact Or.inr ⟨_, hp, h1⟩
+
+
+
+/-! ## Part 4 : derived statements -/
+
+theorem foldl_insert_find {α β : Type} (key : β → Nat) (val : β → α) : ∀ (l : List β) (m0 : SMap α) (k : Nat) (v : α),
+    find? (l.foldl (fun m c => SMap.insert m (key c) (val c)) m0) k = some v →
+    find? m0 k = some v ∨ ∃ c ∈ l, key c = k ∧ val c = v
+  | [], _, _, _, h => Or.inl h
+  | c :: l, m0, k, v, h => by
+    simp only [List.foldl_cons] at h
+    rcases foldl_insert_find key val l _ k v h with h1 | ⟨c', hc', h2⟩
+    · rw [find?_insert] at h1
+      by_cases e : key c = k
+      · rw [if_pos e] at h1
+        simp only [Option.some.injEq] at h1
+        exact Or.inr ⟨c, by simp, e, h1⟩
+      · rw [if_neg e] at h1; exact Or.inl h1
+    · exact Or.inr ⟨c', List.mem_cons_of_mem _ hc', h2⟩
+
+theorem foldl_insert_isSome {α β : Type} (key : β → Nat) (val : β → α) : ∀ (l : List β) (m0 : SMap α) (k : Nat),
+    ((find? m0 k).isSome = true ∨ ∃ c ∈ l, key c = k) →
+    (find? (l.foldl (fun m c => SMap.insert m (key c) (val c)) m0) k).isSome = true
+  | [], m0, k, h => by
+    rcases h with h | ⟨c, hc, _⟩
+    · exact h
+    · cases hc
+  | c :: l, m0, k, h => by
+    simp only [List.foldl_cons]
+    apply foldl_insert_isSome key val l
+    rcases h with h | ⟨c', hc', e⟩
+    · left
+      rw [find?_insert]
+      split
+      · rfl
+      · exact h
+    · simp only [List.mem_cons] at hc'
+      rcases hc' with rfl | hc'
+      · left; rw [find?_insert, if_pos e]; rfl
+      · exact Or.inr ⟨c', hc', e⟩
+
+/-- the invariant holds for every freshly configured connection (any channel configuration, duplicates included) -/
+theorem Conn.fromChannels_inv (budget : Nat) (send recv : List ChanCfg) : (Conn.fromChannels budget send recv).SendInv := by
+  refine ⟨?_, sorted_nil, fun x hx => (by cases hx), ?_⟩
+  · intro ch s hf
+    simp only [Conn.fromChannels] at hf
+    rcases foldl_insert_find (fun c : ChanCfg => c.id) (fun c => SendRel.new c.id c.resend c.maxMem) _ _ ch s hf with h | ⟨c, -, h1, h2⟩
+    · cases h
+    · subst h2; exact ⟨SendRel.new_inv _ _ _, h1⟩
+  · intro x hx
+    simp only [Conn.fromChannels, List.mem_map] at hx
+    obtain ⟨cfg, hcfg, rfl⟩ := hx
+    dsimp only
+    split
+    · rename_i hb
+      simp only [Conn.fromChannels]
+      exact foldl_insert_isSome (fun c : ChanCfg => c.id) (fun c => SendRel.new c.id c.resend c.maxMem) _ _ _
+        (Or.inr ⟨cfg, List.mem_filter.mpr ⟨hcfg, hb⟩, rfl⟩)
+    · rename_i hb
+      simp only [Conn.fromChannels]
+      refine foldl_insert_isSome (fun c : ChanCfg => c.id) (fun c => SendUnrel.new c.id c.maxMem) _ _ _
+        (Or.inr ⟨cfg, List.mem_filter.mpr ⟨hcfg, ?_⟩, rfl⟩)
+      simpa [bne] using hb
+
+theorem Conn.fromChannels_acks (budget : Nat) (send recv : List ChanCfg) :
+    Acks.WF (Conn.fromChannels budget send recv).pendingAcks := trivial
+
+/-- what `get_packets_to_send` does to the send side, whenever it returns -/
+theorem Conn.getPacketsToSend_spec {c c' : Conn} {out : List Bytes} (h : c.SendInv) (hw : Acks.WF c.pendingAcks)
+    (hr : c.getPacketsToSend = .ok (c', out)) :
+    c'.SendInv ∧ c'.pendingAcks = c.pendingAcks ∧ SRGet c.sendRel c'.sendRel ∧ c.packetSeq ≤ c'.packetSeq := by
+  cases hd : c.isDisconnected with
+  | true =>
+    unfold Conn.getPacketsToSend at hr
+    rw [hd] at hr
+    simp only [if_true, Res.ok.injEq, Prod.mk.injEq] at hr
+    obtain ⟨rfl, -⟩ := hr
+    exact ⟨h, rfl, SRGet.refl _, Nat.le_refl _⟩
+  | false =>
+    obtain ⟨c1, pk0, seq0, e, i, -, a, g, sq, -⟩ := Conn.getPacketsToSend_char h hw hd
+    rw [e] at hr
+    split at hr
+    · simp only [Res.ok.injEq, Prod.mk.injEq] at hr
+      obtain ⟨rfl, -⟩ := hr
+      exact ⟨i, a, g, sq⟩
+    · simp only [Res.ok.injEq, Prod.mk.injEq] at hr
+      obtain ⟨rfl, -⟩ := hr
+      obtain ⟨s1, s2, -, -⟩ := Conn.disconnectWith_same c1 (.packetSer ‹_›)
+      exact ⟨i.same s1, s2.trans a, s1.1 ▸ g, s1.2.2.2.1 ▸ sq⟩
+    · cases hr
+
+/-- per-channel view of `SRGet`: nothing is released, nothing is un-marked, memory is unchanged -/
+theorem SRGet.keeps {sr sr' : SMap SendRel} (hg : SRGet sr sr') {ch : Nat} {s : SendRel} (hs : find? sr ch = some s) :
+    ∃ s', find? sr' ch = some s' ∧ s'.mem = s.mem ∧ s'.maxMem = s.maxMem ∧
+      (∀ id, SMap.contains s'.unacked id = SMap.contains s.unacked id) ∧ (∀ id i, s.Pending id i → s'.Pending id i) := by
+  have := hg.1.1 ch
+  rw [hs] at this
+  cases hb : find? sr' ch with
+  | none => rw [hb] at this; cases this
+  | some s' =>
+    obtain ⟨a1, a2⟩ := hg.2 ch s s' hs hb
+    exact ⟨s', rfl, a2, (hg.1.2 ch s s' hs hb).2.1, fun id => a1.contains id, fun id i hp => a1.pending hp⟩
+
+/-- on a live connection with pending acks, the packets handed to serialisation end with an ack packet
+    whose ranges are exactly the pending list; all other packets are not ack packets -/
+theorem Conn.getPacketsToSend_ack {c c' : Conn} {out : List Bytes} (h : c.SendInv) (hw : Acks.WF c.pendingAcks)
+    (hd : c.isDisconnected = false) (hne : c.pendingAcks ≠ []) (hr : c.getPacketsToSend = .ok (c', out)) :
+    ∃ pk0 seq0, (∀ p ∈ pk0, p.isAck = false) ∧
+      (Conn.serialiseAll (pk0 ++ [Packet.ack seq0 c.pendingAcks]) = .ok out ∨
+       ∃ e, Conn.serialiseAll (pk0 ++ [Packet.ack seq0 c.pendingAcks]) = .err e ∧ out = []) := by
+  obtain ⟨c1, pk0, seq0, e, -, na, -⟩ := Conn.getPacketsToSend_char h hw hd
+  have hemp : c.pendingAcks.isEmpty = false := by
+    cases hl : c.pendingAcks with
+    | nil => exact absurd hl hne
+    | cons a t => rfl
+  rw [e, hemp] at hr
+  simp only [Bool.false_eq_true, if_false] at hr
+  refine ⟨pk0, seq0, na, ?_⟩
+  split at hr
+  · rename_i bs hbs
+    simp only [Res.ok.injEq, Prod.mk.injEq] at hr
+    exact Or.inl (hr.2 ▸ hbs)
+  · rename_i e1 he1
+    simp only [Res.ok.injEq, Prod.mk.injEq] at hr
+    exact Or.inr ⟨e1, he1, hr.2.symm⟩
+  · cases hr
+
+/-! ### what goes on the wire for the pending acks -/
+
+theorem serialiseAll_append_ok : ∀ (a : List Packet) (p : Packet) (out : List Bytes),
+    Conn.serialiseAll (a ++ [p]) = .ok out →
+    ∃ bs b, out = bs ++ [b] ∧ p.toBytes SER_BUFFER = .ok b ∧ Conn.serialiseAll a = .ok bs
+  | [], p, out, h => by
+    simp only [List.nil_append, Conn.serialiseAll] at h
+    cases hb : p.toBytes SER_BUFFER with
+    | ok b =>
+      rw [hb] at h
+      simp only [Res.bind_ok, Res.pure_eq, Res.ok.injEq] at h
+      exact ⟨[], b, by rw [← h]; rfl, rfl, rfl⟩
+    | err e => rw [hb] at h; cases h
+    | panic s => rw [hb] at h; cases h
+  | q :: a, p, out, h => by
+    simp only [List.cons_append, Conn.serialiseAll] at h
+    cases hb : q.toBytes SER_BUFFER with
+    | ok b0 =>
+      rw [hb] at h
+      simp only [Res.bind_ok] at h
+      cases hrest : Conn.serialiseAll (a ++ [p]) with
+      | ok bs0 =>
+        rw [hrest] at h
+        simp only [Res.bind_ok, Res.pure_eq, Res.ok.injEq] at h
+        obtain ⟨bs, b, e1, e2, e3⟩ := serialiseAll_append_ok a p bs0 hrest
+        refine ⟨b0 :: bs, b, by rw [← h, e1]; rfl, e2, ?_⟩
+        simp only [Conn.serialiseAll, hb, e3, Res.bind_ok, Res.pure_eq]
+      | err e => rw [hrest] at h; cases h
+      | panic s => rw [hrest] at h; cases h
+    | err e => rw [hb] at h; cases h
+    | panic s => rw [hb] at h; cases h
+
+theorem Acks.wf_le_last : ∀ {l : List AckRange}, Acks.WF l → ∀ x, l.getLast? = some x → ∀ r ∈ l, r.2 ≤ x.2
+  | [], _, _, _, _, hr => by cases hr
+  | [a], _, x, hx, r, hr => by
+    simp only [List.getLast?_singleton, Option.some.injEq] at hx
+    simp only [List.mem_singleton] at hr
+    subst hx hr; exact Nat.le_refl _
+  | a :: b :: t, hw, x, hx, r, hr => by
+    rw [Acks.wf_cons_iff] at hw
+    have hx' : (b :: t).getLast? = some x := by simpa using hx
+    have ih := Acks.wf_le_last hw.2.1 x hx'
+    simp only [List.mem_cons] at hr
+    rcases hr with rfl | hr
+    · have h1 := hw.2.2 b rfl
+      have h2 := Acks.wf_pos hw.2.1 b (by simp)
+      have h3 := ih b (by simp)
+      omega
+    · exact ih r (by simpa using hr)
+
+theorem enc_ack_bounds {seq : Nat} {l : List AckRange} {b : Bytes} (h : (Packet.ack seq l).enc = .ok b) :
+    seq ≤ Varint.MAX ∧ ∃ x, l.getLast? = some x ∧ x.2 - 1 ≤ Varint.MAX := by
+  simp only [Packet.enc] at h
+  by_cases hs : seq ≤ Varint.MAX
+  · refine ⟨hs, ?_⟩
+    rw [putVarint_ok hs] at h
+    simp only [Res.bind_ok] at h
+    cases hr : l.reverse with
+    | nil => rw [hr] at h; cases h
+    | cons x d =>
+      obtain ⟨ls, le⟩ := x
+      rw [hr] at h
+      simp only at h
+      have hlast : l.getLast? = some (ls, le) := by
+        rw [← List.head?_reverse, hr]; rfl
+      refine ⟨(ls, le), hlast, ?_⟩
+      by_cases h1 : 1 ≤ le
+      · by_cases h2 : ls ≤ le - 1
+        · by_cases h3 : le - 1 ≤ Varint.MAX
+          · exact h3
+          · simp [Res.csub, h1, h2, putVarint, h3] at h
+        · simp [Res.csub, h1, h2] at h
+      · simp [Res.csub, h1] at h
+  · simp [putVarint, hs] at h
+
+/-- whenever the ack packet built from a well-formed pending list fits the buffer, what is put on the wire
+    decodes to exactly that list -/
+theorem wire_ack_decodes {cap seq : Nat} {l : List AckRange} {b : Bytes} (hw : Acks.WF l) (hne : l ≠ [])
+    (h : (Packet.ack seq l).toBytes cap = .ok b) : Packet.fromBytes b = .ok (.ack seq l) := by
+  unfold Packet.toBytes at h
+  cases he : (Packet.ack seq l).enc with
+  | err e => rw [he] at h; cases h
+  | panic s => rw [he] at h; cases h
+  | ok b0 =>
+    rw [he] at h
+    simp only [Res.bind_ok] at h
+    split at h
+    · simp only [Res.pure_eq, Res.ok.injEq] at h
+      subst h
+      obtain ⟨hs, x, hx, hx2⟩ := enc_ack_bounds he
+      have hb : ∀ r ∈ l, r.2 ≤ Varint.MAX + 1 := by
+        intro r hr
+        have := Acks.wf_le_last hw x hx r hr
+        omega
+      obtain ⟨b', hb', hd⟩ := Packet.fromBytes_enc (.ack seq l) ⟨hs, Acks.ackWF_of_wf l hne hw hb⟩
+      rw [he] at hb'; cases hb'
+      exact hd
+    · cases h
+
+/-- **the acknowledgement put on the wire denotes exactly the pending list** -/
+theorem Conn.getPacketsToSend_wire_ack {c c' : Conn} {out : List Bytes} (h : c.SendInv) (hw : Acks.WF c.pendingAcks)
+    (hd : c.isDisconnected = false) (hne : c.pendingAcks ≠ []) (hr : c.getPacketsToSend = .ok (c', out))
+    (hout : out ≠ []) :
+    ∃ seq0 b, out.getLast? = some b ∧ Packet.fromBytes b = .ok (.ack seq0 c.pendingAcks) := by
+  obtain ⟨pk0, seq0, -, hs⟩ := Conn.getPacketsToSend_ack h hw hd hne hr
+  rcases hs with hs | ⟨e, -, he⟩
+  · obtain ⟨bs, b, e1, e2, -⟩ := serialiseAll_append_ok pk0 _ out hs
+    refine ⟨seq0, b, by rw [e1]; simp, wire_ack_decodes hw hne e2⟩
+  · exact absurd he hout
+
+end SI
 end RenetVerif
